@@ -1,16 +1,19 @@
-"""C06 — the library reads back its own SGR output; FaceModify::apply / FaceAttrs follow SGR semantics (table clauses).
+"""C06 — the library reads back its own SGR output; FaceModify::apply / FaceAttrs follow SGR semantics.
 
-All facts come from src.json trees: the `Face` / `FaceModify` arms of `TTYEncoder::encode` and `color_sgr_encode`
-(src/encoder.rs), `sgr_face` / `sgr_color` (src/decoder.rs), `FaceAttrs`, its operator impls and `FaceModify::apply`
-(src/face.rs).  Finite tables are enumerated completely; small pure functions are given their value on every input of a
-finite domain by sa.consteval (denotation of the source expressions — the repository is never run).
+All facts come from src.json trees.  Nothing of the repository is run: `Ev` (below) gives the *source expressions* of
+`TTYEncoder::encode` / `color_sgr_encode` / `Chunks` (src/encoder.rs), `sgr_face` / `sgr_color` / `number_decode` (src/decoder.rs) and
+`FaceAttrs` / `FaceModify::apply` (src/face.rs) their value on every input of a finite domain (every face change a FaceModify can
+express, every Face attribute, pairs of them, all 8-bit attribute states ..), so the rules decide on what is written and read back,
+not on the statements, helpers or idioms used to get there.
 """
 import json
 import os
+import re
 
-from ..src import find_all, expr_text, pat_text, lit_int
-from ..consteval import Interp, Frame, Unsupported, StructV, EnumV, NONE, some, copyv, emissions, strip_try, pat_names
-from .c20 import truecolor_template, unref, block_value
+from ..src import find_all
+from .. import consteval
+from ..consteval import Interp, Frame, Unsupported, StructV, EnumV, ClosureV, NONE, some, copyv, freeze
+from .. import templates as Tm
 from .. import grammar, regex
 
 ENC = "src/encoder.rs"
@@ -20,11 +23,13 @@ REFS = os.path.join(os.path.dirname(os.path.dirname(os.path.abspath(__file__))),
 
 
 CLAIM = {
-    "text": "Decides, from the source trees of the current tree: every SGR chunk pushed by the encoder's FaceModify and Face arms (reset, "
-            "bold/italic/blink/strike on and off, six underline styles, the three colour roles in the 38/48/58;2;r;g;b form) is mapped by the "
-            "decoder's sgr_face/sgr_color arms back to the same field and value, reset is written first, the ESC[ ; m framing and ;/: splitting "
-            "agree, a true-colour triple is read back unchanged also when another parameter follows it and a component above 255 yields no colour; FaceModify::apply's (update, flag) "
-            "table is injective, name-consistent and complete, and apply - evaluated on all 192 valid attribute states x 2 colour states for "
+    "text": "Decides, by giving the source expressions of the current tree their value on finite domains: every face change a FaceModify can express (reset, "
+            "bold/italic/blink/strike on and off, six underline styles, the three colour roles) and every Face attribute is written by TTYEncoder::encode in "
+            "true-colour mode as one ESC[ ; m sequence that the decoder's sgr_face/sgr_color read back as the same field and value - alone, with reset first, in pairs "
+            "(a true-colour triple is read back unchanged also when another parameter follows it; the parameters of a combined change are those of its parts joined by ;) "
+            "and all at once; on two consecutive parameters the later overrides and a reset discards; a component above 255 yields no colour; the matcher hands "
+            "sgr_face exactly the parameter bytes; FaceModify::apply moves "
+            "exactly the flag named like the updated field (injective, complete, Some(true) sets / Some(false) clears), and apply - evaluated on all 192 valid attribute states x 2 colour states for "
             "every single-field modification and all set/clear combinations of the four flags - sets or clears exactly that attribute and "
             "reset yields the default face; every XAssign operator of FaceAttrs equals `*self = *self X rhs` on all 256x256 raw values; "
             "pack/unpack/underline/From and the bit constants realise the 3-bit-style + flags<<3 layout on all 8-bit values; Char(c) is written verbatim and "
@@ -33,278 +38,1953 @@ CLAIM = {
             "the whole command automaton; Utf8Decoder: all; event decoder: printable ASCII and every multi-byte character) - decided by language inclusion of the "
             "RFC 3629 rows in the grammar's DFA, lead byte by lead byte. NOT decided: "
             "arbitrary SGR histories and chunked writes through TTYCellWriter, the decoder automaton that frames ESC[..m and which matcher wins on a character, "
-            "ECMA-48 conformance of the code numbers (bold-off is 21 on both sides).",
-    "technique": "finite match/array table extraction and agreement, exhaustive denotational evaluation of small pure functions over finite domains (src.json expression trees); "
+            "reduced colour depths (C20), ECMA-48 conformance of the code numbers (bold-off is 21 on both sides).",
+    "technique": "exhaustive denotational evaluation of the encoder, decoder and attribute functions over finite domains (src.json expression trees, std items modelled); "
                  "grammar extraction (engine E2) + DFA language inclusion against the RFC 3629 byte-sequence table",
     "design_ref": "DESIGN.md §5 C06",
 }
 
 
-# ------------------------------------------------------------------------------------------ encoder side
-def encoder_arm(src, variant):
-    r = src.fn("encode", impl_self="TTYEncoder")
-    if r is None:
-        return None
-    f, item = r
-    for m in find_all(item["body"], lambda n: n.get("k") == "match"):
-        for arm in m["arms"]:
-            p = arm["pat"]
-            if p.get("k") == "tstruct" and p["path"].split("::")[-1] == variant and len(p["elems"]) == 1 and p["elems"][0]["k"] == "ident":
-                return f, arm, p["elems"][0]["name"]
-        break
-    return None
+# ------------------------------------------------------------------------------------------ evaluator with std models
+# `Ev` extends sa.consteval.Interp (denotation of source expression trees on concrete values; nothing of the repository is run) by models
+# of the std items the SGR encoder and decoder are written with: Vec<u8>/slices, Option/Result combinators, lazy iterators (split, take,
+# by_ref, enumerate, from_fn ..), io::Write sinks and `write!` formatting, closures that keep state, enum variants with payloads.  The
+# rules below then decide on the *value* (bytes written / record decoded), whatever idiom or helper the source uses to get there.
+class Panic(Unsupported):
+    """evaluation reached a panic (panic!/unreachable!/failing assert!/unwrap of None/index out of range)"""
 
 
-def flatten(items, conds, out):
-    """emission items with their stack of conditions: [(conds, item)] in emission order"""
-    for it in items:
-        k = it[0]
-        if k == "if":
-            c = it[1]
-            if c.get("k") == "letcond":
-                out_c = ("iflet", c["pat"], c["e"])
-                flatten(it[2], conds + [out_c], out)
-                flatten(it[3], conds + [("not-iflet", c["pat"], c["e"])], out)
-            else:
-                neg = False
-                while c.get("k") == "un" and c["op"] == "!":
-                    neg = not neg
-                    c = c["e"]
-                flatten(it[2], conds + [("bool", c, not neg)], out)
-                flatten(it[3], conds + [("bool", c, neg)], out)
-        elif k == "match":
-            for pat, sub in it[2]:
-                if not sub:
-                    out.append((conds + [("arm", it[1], pat)], ("nothing",)))
-                flatten(sub, conds + [("arm", it[1], pat)], out)
+class VariantV:
+    """value of an enum variant that carries fields: TerminalCommand::FaceModify(m), CursorMove{row, col}"""
+    __slots__ = ("ty", "name", "fields")
+
+    def __init__(self, ty, name, fields):
+        self.ty = ty
+        self.name = name
+        self.fields = fields          # list (tuple variant) or dict (struct variant)
+
+    def __eq__(self, o):
+        return isinstance(o, VariantV) and (o.ty, o.name, o.fields) == (self.ty, self.name, self.fields)
+
+    def __ne__(self, o):
+        return not self.__eq__(o)
+
+    __hash__ = None
+
+    def __repr__(self):
+        return "%s::%s%r" % (self.ty, self.name, self.fields)
+
+
+class FnV:
+    """a function item used as a value (`.and_then(number_decode)`, `.all(Option::is_none)`)"""
+    __slots__ = ("path", "user")
+
+    def __init__(self, path, user=None):
+        self.path = path
+        self.user = user             # (file, trait, item) of a crate function, or None for a std item
+
+    def __repr__(self):
+        return "fn " + self.path
+
+
+class CharV(int):
+    """a `char` (code point); an int for arithmetic and comparison, a character for Display"""
+    def __repr__(self):
+        return "'%s'" % chr(int(self)) if 32 <= int(self) < 127 else "'\\u{%x}'" % int(self)
+
+
+def is_control(c):
+    return c < 0x20 or 0x7f <= c < 0xa0          # Unicode general category Cc
+
+
+class Sink:
+    """an io::Write that records what is written"""
+    __hash__ = None
+
+    def __init__(self):
+        self.data = bytearray()
+
+    def __repr__(self):
+        return "Sink(%r)" % bytes(self.data)
+
+
+class IterV:
+    """lazy iterator: wraps a python generator; `nxt()` -> some(v) | NONE.  by_ref()/&mut share the object (and so the position)"""
+    __hash__ = None
+
+    def __init__(self, gen):
+        self.gen = iter(gen)
+        self.peeked = []
+
+    def nxt(self):
+        if self.peeked:
+            return some(self.peeked.pop(0))
+        for v in self.gen:
+            return some(v)
+        return NONE
+
+    def peek(self):
+        if not self.peeked:
+            for v in self.gen:
+                self.peeked.append(v)
+                break
+        return some(self.peeked[0]) if self.peeked else NONE
+
+    def __iter__(self):
+        while True:
+            v = self.nxt()
+            if v == NONE:
+                return
+            yield v[1]
+
+    def size_hint(self):
+        raise Unsupported("size_hint of this iterator")
+
+
+class SplitIter(IterV):
+    """core::slice::Split: pieces of `data` between elements satisfying pred; the piece after the last separator is yielded too;
+    size_hint() = (0, Some(0)) once finished, else (1, Some(len + 1))"""
+    def __init__(self, data, pred):
+        IterV.__init__(self, ())
+        self.v = data
+        self.pred = pred
+        self.finished = False
+
+    def nxt(self):
+        if self.finished:
+            return NONE
+        for i, b in enumerate(self.v):
+            if self.pred(b):
+                piece, self.v = self.v[:i], self.v[i + 1:]
+                return some(piece)
+        self.finished = True
+        return some(self.v)
+
+    def size_hint(self):
+        return (0, some(0)) if self.finished else (1, some(len(self.v) + 1))
+
+
+class MutRef:
+    """`&mut` to a value that has no identity of its own here (an integer, bool, Option ..): reads and writes go to where it lives"""
+    __slots__ = ("get", "set")
+    __hash__ = None
+
+    def __init__(self, get, set_):
+        self.get = get
+        self.set = set_
+
+    def __repr__(self):
+        return "&mut %r" % (self.get(),)
+
+
+def deref(v):
+    while isinstance(v, MutRef):
+        v = v.get()
+    return v
+
+
+class Scope(dict):
+    """variables of a closure call: reads fall through to the defining frame, `let`/parameters bind locally, assignments to a captured
+    variable update the defining frame (a closure that counts keeps counting)"""
+    def __init__(self, parent):
+        dict.__init__(self)
+        self.parent = parent
+
+    def __missing__(self, k):
+        return self.parent[k]
+
+    def __contains__(self, k):
+        return dict.__contains__(self, k) or k in self.parent
+
+    def get(self, k, d=None):
+        return self[k] if k in self else d
+
+    def assign(self, k, v):
+        if dict.__contains__(self, k) or k not in self.parent:
+            self[k] = v
+        elif isinstance(self.parent, Scope):
+            self.parent.assign(k, v)
         else:
-            out.append((conds, it))
+            self.parent[k] = v
 
 
-def is_field_of(e, var):
-    e = unref(e)
-    if e.get("k") == "field" and unref(e["e"]).get("k") == "path" and unref(e["e"])["p"] == var:
-        return e["name"]
-    return None
+def _isint(v):
+    return isinstance(v, int) and not isinstance(v, bool)
 
 
-def pat_value(p):
-    """value denoted by the patterns used in the tables: Some(true) -> True, Some(UnderlineStyle::X) -> "X", UnderlineStyle::X -> "X", None -> NONE"""
-    if p["k"] == "ident" and p["name"] == "None":
-        return "absent"
-    if p["k"] == "tstruct" and p["path"] == "Some" and len(p["elems"]) == 1:
-        q = p["elems"][0]
-        if q["k"] == "lit" and q["e"].get("t") == "bool":
-            return bool(q["e"]["v"])
-        if q["k"] == "path":
-            return q["p"].split("::")[-1]
-        if q["k"] == "ident":
-            return ("some", q["name"])
-    if p["k"] == "path":
-        return p["p"].split("::")[-1]
-    if p["k"] == "wild":
-        return "other"
-    return None
+def _plain(v):
+    """a value without identity or position (safe to hand out again from the memo): no iterator, closure or sink inside"""
+    if v is None or isinstance(v, (int, float, str, bytes, EnumV)):
+        return True
+    if isinstance(v, (tuple, list)):
+        return all(_plain(x) for x in v)
+    if isinstance(v, StructV):
+        return all(_plain(x) for x in v.fields.values())
+    if isinstance(v, VariantV):
+        return all(_plain(x) for x in (v.fields.values() if isinstance(v.fields, dict) else v.fields))
+    return False
 
 
-def encoder_rows(arm, var):
-    """-> (rows, framing, problems); row = dict(field, value, chunk | role, order)"""
-    items = emissions(arm["body"])
-    flat = []
-    flatten(items, [], flat)
-    rows, framing, problems = [], [], []
-    order = 0
-    for conds, it in flat:
-        k = it[0]
-        if k in ("mcall",):
-            framing.append((expr_text(it[1]), it[2], it[3], conds))
-            continue
-        if k == "nothing":
-            continue
-        if k not in ("push", "call"):
-            problems.append("unexpected %s" % k)
-            continue
-        key = None
-        for c in reversed(conds):
-            if c[0] == "bool":
-                f = is_field_of(c[1], var)
-                if f is not None and c[2] is True:
-                    key = (f, True)
-                    break
-                u = unref(c[1])
-                if u.get("k") == "mcall" and u["m"] == "contains" and len(u["args"]) == 1 and c[2] is True \
-                        and is_field_of(u["recv"], var) == "attrs" and unref(u["args"][0]).get("k") == "path":
-                    key = ("attrs:" + unref(u["args"][0])["p"].split("::")[-1], True)
-                    break
-            elif c[0] == "iflet":
-                f = is_field_of(c[2], var)
-                v = pat_value(c[1])
-                if f is not None and isinstance(v, tuple):
-                    key = (f, v)
-                    break
-            elif c[0] == "arm":
-                f = is_field_of(c[1], var)
-                u = unref(c[1])
-                if f is None and u.get("k") == "mcall" and u["m"] == "underline" and is_field_of(u["recv"], var) == "attrs":
-                    f = "underline"
-                v = pat_value(c[2])
-                if f is not None and v is not None:
-                    key = (f, v)
-                    break
-        if key is None:
-            if not conds and k == "push":
-                key = ("reset", "always")
-            else:
-                problems.append("emission under a condition the rule does not understand: %s" % [c[0] for c in conds])
+def _isopt(v):
+    return v == NONE or (isinstance(v, tuple) and not isinstance(v, EnumV) and len(v) == 2 and v[0] == "Some")
+
+
+def _isres(v):
+    return isinstance(v, tuple) and not isinstance(v, EnumV) and len(v) == 2 and v[0] in ("Ok", "Err")
+
+
+U64 = (1 << 64) - 1
+_INT_CONSTS = {"u8": 8, "u16": 16, "u32": 32, "u64": 64, "usize": 64, "u128": 128}
+_SINT_CONSTS = {"i8": 8, "i16": 16, "i32": 32, "i64": 64, "isize": 64}
+
+
+def _from_utf8(b):
+    try:
+        return ("Ok", bytes(b).decode("utf-8"))
+    except UnicodeDecodeError:
+        return ("Err", "Utf8Error")
+
+
+class Ev(Interp):
+    def __init__(self, src, max_steps=400_000_000):
+        Interp.__init__(self, src, max_steps)
+        self._enums.setdefault("Ordering", ["Less", "Equal", "Greater"])
+        self._variants = {}          # variant name -> [enum] (for names brought in by `use Enum::*`)
+        self._variant_fields = {}
+        for (f, it, t) in src.enums:
+            if t:
                 continue
-        row = {"field": key[0], "value": key[1], "order": order}
-        order += 1
-        if k == "push":
-            if it[1] is None:
-                problems.append("pushed chunk is not a byte-string literal for %s" % (key,))
-                continue
-            row["chunk"] = it[1]
-        else:
-            if it[1] != "color_sgr_encode" or len(it[2]) != 4:
-                problems.append("unexpected call %s" % it[1])
-                continue
-            role = unref(it[2][3])
-            row["role"] = role["p"].split("::")[-1] if role.get("k") == "path" else None
-            row["arg"] = expr_text(unref(it[2][1]))
-            row["dst"] = expr_text(unref(it[2][0]))
-        rows.append(row)
-    return rows, framing, problems
+            for v in it["variants"]:
+                self._variants.setdefault(v["name"], []).append(it["name"])
+                self._variant_fields[(it["name"], v["name"])] = [x["name"] for x in v["fields"]]
+        self.extern_fns.setdefault("RGBA::new", lambda args: ("RGBA",) + tuple(args))
 
+    # ------------------------------------------------------------------ values
+    def _lit(self, e):
+        v = Interp._lit(self, e)
+        if e.get("k") == "lit" and e.get("t") == "char":
+            return CharV(v)
+        return v
 
-def iter_arg(e):
-    """iterator expression handed to sgr_color -> (base iterator name, take-limit or None):  &mut it | it.by_ref().take(N) | (&mut it).take(N)"""
-    e = unref(e)
-    lim = None
-    if e.get("k") == "mcall" and e["m"] == "take" and len(e["args"]) == 1 and lit_int(e["args"][0]) is not None:
-        lim = lit_int(e["args"][0])
-        e = unref(e["recv"])
-    if e.get("k") == "mcall" and e["m"] == "by_ref" and not e.get("args"):
-        e = unref(e["recv"])
-    return (e["p"] if e.get("k") == "path" else expr_text(e)), lim
+    def default_of(self, ty):
+        t = ty.replace(" ", "")
+        if t.startswith("Vec<") or t.startswith("VecDeque<") or t.startswith("SmallVec<"):
+            return []
+        if t == "String":
+            return ""
+        if t == "char":
+            return CharV(0)
+        return Interp.default_of(self, ty)
 
-
-# ------------------------------------------------------------------------------------------ decoder side
-class DecoderTable:
-    def __init__(self, src, it):
-        self.ok = False
-        r = src.fn("sgr_face", file=DEC)
-        if r is None:
-            return
-        self.file, self.item = r
-        self.it = it
-        self.loop = None
-        for w in find_all(self.item["body"], lambda n: n.get("k") == "while"):
-            self.loop = w
-            break
-        if self.loop is None:
-            return
-        c = self.loop["cond"]
-        self.groups_iter = None
-        if c.get("k") == "letcond" and unref(c["e"]).get("k") == "mcall" and unref(c["e"])["m"] == "next":
-            self.groups_iter = expr_text(unref(unref(c["e"])["recv"]))
-            self.group_var = (pat_names(c["pat"]) or [None])[0]
-        self.face_var = None
-        self.lets = {}
-        for s in self.item["body"]["stmts"]:
-            if s["k"] == "let" and s["pat"]["k"] == "ident" and s.get("init") and expr_text(s["init"]).startswith("FaceModify::default"):
-                self.face_var = s["pat"]["name"]
-            if s["k"] == "let" and s["pat"]["k"] == "ident":
-                self.lets[s["pat"]["name"]] = s["init"]
-        self.cmd_match = None
-        for s in self.loop["body"]["stmts"]:
-            if s["k"] == "let" and s["pat"]["k"] == "ident":
-                self.lets[s["pat"]["name"]] = s["init"]
-            if s["k"] == "expr" and s["e"].get("k") == "match":
-                self.cmd_match = s["e"]
-        if self.cmd_match is None or self.face_var is None:
-            return
-        self.ok = True
-
-    def split_byte(self, name):
-        """byte on which the iterator bound to `name` splits (closure |b| matches!(b, b'x') or *b == b'x')"""
-        init = self.lets.get(name)
-        if init is None:
-            return None
-        u = unref(init)
-        if u.get("k") == "mcall" and u["m"] == "split" and len(u["args"]) == 1 and u["args"][0].get("k") == "closure":
-            lits = find_all(u["args"][0]["body"], lambda n: n.get("k") == "lit" and n.get("t") == "byte")
-            if len(lits) == 1:
-                return int(lits[0]["v"]), expr_text(unref(u["recv"]))
-        return None
-
-    def arm_for(self, match, value):
-        for arm in match["arms"]:
-            try:
-                if self.it.match_pat(arm["pat"], value, {}):
-                    return arm
-            except Unsupported:
-                return None
-        return None
-
-    def effect_of(self, body, sub):
-        """effect of one arm body: (field, value) / ("reset", True) / None (ignored) / ("?", text)"""
-        b = body
-        if b.get("k") == "block":
-            st = b.get("stmts") or []
-            if not st:
-                return None
-            if len(st) != 1 or st[0]["k"] != "expr":
-                return ("?", "block")
-            b = st[0]["e"]
-        if b.get("k") == "match":
-            arm = self.arm_for(b, some(sub) if sub is not None else NONE)
-            scr = expr_text(b["e"])
-            if arm is None:
-                return ("?", "sub-match")
-            eff = self.effect_of(arm["body"], None)
-            self.sub_scrutinee = scr
-            return eff
-        if b.get("k") == "assign":
-            l = unref(b["l"])
-            r = unref(b["r"])
-            if l.get("k") == "path" and l["p"] == self.face_var and r.get("k") == "struct":
-                fields = {f["name"]: f["e"] for f in r["fields"]}
-                rest = expr_text(r["rest"]) if r.get("rest") else None
-                if set(fields) == {"reset"} and fields["reset"].get("k") == "lit" and fields["reset"].get("v") is True and rest and rest.startswith("FaceModify::default"):
-                    return ("reset", True)
-                return ("?", "struct")
-            f = is_field_of(l, self.face_var)
-            if f is None:
-                return ("?", "assign")
-            if r.get("k") == "call" and r["f"].get("p") == "Some" and len(r["args"]) == 1:
-                a = unref(r["args"][0])
-                if a.get("k") == "lit" and a["t"] == "bool":
-                    return (f, bool(a["v"]))
-                if a.get("k") == "path":
-                    return (f, a["p"].split("::")[-1])
-                if a.get("k") == "index":
-                    return (f, ("palette", expr_text(a)))
-                return ("?", expr_text(a))
-            if r.get("k") == "call" and r["f"].get("k") == "path" and not r.get("args"):
-                return (f, ("colour", r["f"]["p"]))
-            return ("?", expr_text(r))
-        return ("?", b.get("k"))
-
-    def decode_chunk(self, chunk, sub_sep):
-        """encoder chunk -> effect of the decoder, by the decoder's own splitting rule"""
-        parts = chunk.split(bytes([sub_sep]))
+    def _path_value(self, p, fr):
+        if p in fr.vars:
+            return fr.vars[p]
         try:
-            nums = [int(p) for p in parts]
-        except ValueError:
-            return ("?", "non-numeric chunk")
-        arm = self.arm_for(self.cmd_match, some(nums[0]))
-        if arm is None:
-            return ("?", "no arm")
-        self.sub_scrutinee = None
-        eff = self.effect_of(arm["body"], nums[1] if len(nums) > 1 else None)
-        if len(nums) > 1 and self.sub_scrutinee is None:
-            return ("?", "sub-parameter ignored")
-        return eff
+            return Interp._path_value(self, p, fr)
+        except Unsupported:
+            pass
+        segs = re.sub(r"<[^<>]*>", "", p).split("::")
+        name = segs[-1]
+        if len(segs) >= 2 and segs[-2] == "Ordering" and name in ("Less", "Equal", "Greater"):
+            return EnumV("Ordering", name)
+        if len(segs) >= 2 and name in ("MAX", "MIN", "BITS"):
+            ty = segs[-2]
+            if ty in _INT_CONSTS:
+                return {"MAX": (1 << _INT_CONSTS[ty]) - 1, "MIN": 0, "BITS": _INT_CONSTS[ty]}[name]
+            if ty in _SINT_CONSTS:
+                b = _SINT_CONSTS[ty]
+                return {"MAX": (1 << (b - 1)) - 1, "MIN": -(1 << (b - 1)), "BITS": b}[name]
+        if len(segs) == 1:
+            en = self._variants.get(name, [])
+            if len(en) == 1 and not self._variant_fields[(en[0], name)]:
+                return EnumV(en[0], name)
+            f = self.find_fn(None, name, file=fr.file) or self.find_fn(None, name)
+            if f is not None:
+                return FnV(p, f)
+        else:
+            ty = fr.self_ty if segs[-2] == "Self" else segs[-2]
+            if ty in self._enums and name in self._enums[ty]:
+                return FnV(p)          # tuple-variant constructor used as a function
+            f = self.find_fn(ty, name)
+            if f is not None:
+                return FnV(p, f)
+            return FnV("::".join(segs[-2:]))
+        raise Unsupported("path " + p)
+
+    unsigned_sub = False          # set on an instance that evaluates code whose integers are all unsigned (indices): `a - b` below zero is a panic
+
+    def binop(self, op, a, b, memo=True):
+        a, b = deref(a), deref(b)
+        if op == "-" and self.unsigned_sub and _isint(a) and _isint(b) and a >= 0 and b >= 0 and a < b:
+            raise Panic("attempt to subtract with overflow (%d - %d)" % (a, b))
+        if op in ("==", "!=") and isinstance(a, (list, bytes, bytearray)) and isinstance(b, (list, bytes, bytearray)):
+            r = list(a) == list(b)
+            return r if op == "==" else not r
+        if _isopt(a) and _isopt(b) and op in ("<", "<=", ">", ">="):
+            raise Unsupported("ordering of Options")
+        return Interp.binop(self, op, a, b, memo)
+
+    # ------------------------------------------------------------------ patterns
+    def match_pat(self, p, v, binds):
+        k = p["k"]
+        if k == "ident" and not p.get("sub") and p["name"][:1].isupper() and isinstance(v, (EnumV, VariantV)) \
+                and p["name"] in self._enums.get(v.ty, ()):
+            return v.name == p["name"]
+        if k == "path" and isinstance(v, (EnumV, VariantV)):
+            segs = p["p"].split("::")
+            if segs[-1] in self._enums.get(v.ty, ()) and (len(segs) == 1 or segs[-2] in (v.ty, "Self")):
+                return v.name == segs[-1]
+        if k == "tstruct":
+            nm = p["path"].split("::")[-1]
+            if isinstance(v, (VariantV, EnumV)) and nm in self._enums.get(v.ty, ()):
+                if not isinstance(v, VariantV) or v.name != nm or not isinstance(v.fields, list):
+                    return False
+                el = [x for x in p["elems"]]
+                if any(x["k"] == "rest" for x in el):
+                    i = [x["k"] for x in el].index("rest")
+                    head, tail = el[:i], el[i + 1:]
+                    vs = v.fields
+                    return len(vs) >= len(head) + len(tail) and all(self.match_pat(a, x, binds) for a, x in zip(head, vs)) and \
+                        all(self.match_pat(a, x, binds) for a, x in zip(tail, vs[len(vs) - len(tail):]))
+                return len(el) == len(v.fields) and all(self.match_pat(a, x, binds) for a, x in zip(el, v.fields))
+        if k == "struct":
+            nm = p["path"].split("::")[-1]
+            if isinstance(v, (VariantV, EnumV)) and nm in self._enums.get(v.ty, ()):
+                if not isinstance(v, VariantV) or v.name != nm or not isinstance(v.fields, dict):
+                    return False
+                fields = v.fields
+            elif isinstance(v, StructV) and nm in (v.ty, "Self"):
+                fields = v.fields
+            else:
+                raise Unsupported("struct pattern " + p["path"])
+            for f in p["fields"]:
+                if f["name"] not in fields:
+                    raise Unsupported("field %s in pattern" % f["name"])
+                sub = f.get("pat")
+                if sub is None:
+                    binds[f["name"]] = fields[f["name"]]
+                elif not self.match_pat(sub, fields[f["name"]], binds):
+                    return False
+            return True
+        if k in ("tuple", "slice") and any(x["k"] == "rest" for x in p["elems"]) and isinstance(v, (tuple, list, bytes)) and not isinstance(v, EnumV):
+            el = p["elems"]
+            i = [x["k"] for x in el].index("rest")
+            head, tail = el[:i], el[i + 1:]
+            vs = list(v)
+            return len(vs) >= len(head) + len(tail) and all(self.match_pat(a, x, binds) for a, x in zip(head, vs)) and \
+                all(self.match_pat(a, x, binds) for a, x in zip(tail, vs[len(vs) - len(tail):]))
+        if k == "slice" and isinstance(v, bytes):
+            v = list(v)
+        return Interp.match_pat(self, p, v, binds)
+
+    # ------------------------------------------------------------------ places / stores
+    def place(self, e, fr):
+        k = e["k"]
+        if k == "un" and e["op"] == "*":
+            return deref(self.place(e["e"], fr))
+        if k == "index":
+            b = deref(self.place(e["e"], fr))
+            r = e["i"]
+            if r.get("k") == "range":
+                if not isinstance(b, (list, bytes, bytearray, str)):
+                    raise Unsupported("range index into a non-slice")
+                lo = self.eval(r["lo"], fr) if r.get("lo") else 0
+                hi = (self.eval(r["hi"], fr) + (1 if r.get("incl") else 0)) if r.get("hi") else len(b)
+                if not _isint(lo) or not _isint(hi):
+                    raise Unsupported("slice bounds")
+                if not 0 <= lo <= hi <= len(b):
+                    raise Panic("slice %d..%d of a slice of length %d" % (lo, hi, len(b)))
+                return b[lo:hi]
+            i = self.eval(r, fr)
+            if isinstance(b, (list, bytes, bytearray)) and _isint(i):
+                if not 0 <= i < len(b):
+                    raise Panic("index %d of a slice of length %d" % (i, len(b)))
+                return b[i]
+            raise Unsupported("index into %s" % type(b).__name__)
+        if k == "field":
+            b = self.place(e["e"], fr)
+            if isinstance(b, VariantV):
+                raise Unsupported("field of an enum value")
+        return Interp.place(self, e, fr)
+
+    def store(self, e, fr, v):
+        if e["k"] == "path" and isinstance(fr.vars, Scope):
+            if e["p"] not in fr.vars:
+                raise Unsupported("assignment to non-local " + e["p"])
+            fr.vars.assign(e["p"], v)
+            return
+        if e["k"] == "paren":
+            return self.store(e["e"], fr, v)
+        if e["k"] == "un" and e["op"] == "*":
+            inner = e["e"]
+            while inner.get("k") == "paren":
+                inner = inner["e"]
+            tgt = Interp.place(self, inner, fr) if inner.get("k") == "path" else self.place(inner, fr)
+            if isinstance(tgt, MutRef):
+                tgt.set(v)
+                return
+            if not isinstance(tgt, StructV) and inner.get("k") in ("path", "field", "index"):
+                return self.store(inner, fr, v)      # `*counter = ..` through a reference held in a local / field
+        return Interp.store(self, e, fr, v)
+
+    # ------------------------------------------------------------------ expressions
+    def _e_ref(self, e, fr):
+        v = self.place(e["e"], fr)
+        inner = e["e"]
+        while inner.get("k") == "paren":
+            inner = inner["e"]
+        if e.get("mut") and not isinstance(v, (list, StructV, Sink, IterV, MutRef, VariantV, ClosureV)) and inner.get("k") in ("path", "field", "index") \
+                and not (inner.get("k") == "path" and inner["p"] not in fr.vars):
+            # `&mut counter`: a reference the callee can write through
+            return MutRef(lambda: self.place(inner, fr), lambda nv: self.store(inner, fr, nv))
+        return v
+
+    def _e_un(self, e, fr):
+        if e["op"] == "*":
+            return copyv(deref(self.place(e["e"], fr)))
+        v = deref(self.eval(e["e"], fr))
+        if e["op"] == "!" and isinstance(v, bool):
+            return not v
+        if e["op"] == "-" and isinstance(v, (int, float)) and not isinstance(v, bool):
+            return -v
+        raise Unsupported("unary " + e["op"])
+
+    def _discriminant(self, v):
+        """`Enum::V as <int>`: declared discriminant, else one more than the previous variant's"""
+        hit = self.src.enum(v.ty)
+        if hit is None:
+            raise Unsupported("discriminant of " + v.ty)
+        d = -1
+        for var in hit[1]["variants"]:
+            if var.get("discr") is not None:
+                d = self.eval(var["discr"], Frame({}, None, hit[0]))
+                if not _isint(d):
+                    raise Unsupported("discriminant expression of %s::%s" % (v.ty, var["name"]))
+            else:
+                d += 1
+            if var["name"] == v.name:
+                return d
+        raise Unsupported("variant %s::%s" % (v.ty, v.name))
+
+    def _e_cast(self, e, fr):
+        ty = e["ty"].replace(" ", "")
+        if ty in _INT_CONSTS or ty in _SINT_CONSTS:
+            v = self.eval(e["e"], fr)
+            if isinstance(v, EnumV):
+                v = self._discriminant(v)
+            if isinstance(v, bool):
+                v = int(v)
+            return Interp._e_cast(self, {"k": "cast", "e": {"k": "$value", "v": int(v) if isinstance(v, CharV) else v}, "ty": e["ty"]}, fr)
+        if ty == "char":
+            v = self.eval(e["e"], fr)
+            if _isint(v) and 0 <= v < 256:
+                return CharV(v)
+            raise Unsupported("cast to char")
+        return Interp._e_cast(self, e, fr)
+
+    def _e_block(self, e, fr):
+        # items declared inside a block (`const CODES: [..] = ..;`, a nested `fn`) are in scope in the whole block
+        for st in e.get("stmts") or []:
+            if st.get("k") == "item" and isinstance(st.get("item"), dict):
+                it_ = st["item"]
+                if it_.get("k") in ("const", "static") and it_.get("name") and it_.get("expr") is not None:
+                    fr.vars[it_["name"]] = self.eval(it_["expr"], fr)
+                elif it_.get("k") == "fn" and it_.get("name") and it_.get("body") is not None:
+                    fr.vars[it_["name"]] = FnV(it_["name"], (fr.file, None, it_))
+        return Interp._e_block(self, e, fr)
+
+    def _e_loop(self, e, fr):
+        n = 0
+        while True:
+            n += 1
+            if n > 100000:
+                raise Unsupported("loop bound")
+            try:
+                self.eval(e["body"], fr)
+            except consteval._Break:
+                return ()
+            except consteval._Continue:
+                continue
+
+    def _e_repeat(self, e, fr):
+        n = self.eval(e["n"], fr)
+        if not _isint(n) or not 0 <= n <= 1 << 16:
+            raise Unsupported("repeat length")
+        v = self.eval(e["e"], fr)
+        return [copyv(v) for _ in range(n)]
+
+    def _e_unsafe(self, e, fr):
+        raise Unsupported("unsafe")
+
+    def _iter_of(self, v):
+        """python iterable over the items a Rust `for` / iterator adaptor sees"""
+        if isinstance(v, IterV):
+            return v
+        if isinstance(v, (list, bytes, bytearray)):
+            return iter(list(v))
+        if _isopt(v):
+            return iter([v[1]] if v != NONE else [])
+        raise Unsupported("iteration over %s" % type(v).__name__)
+
+    def _e_for(self, e, fr):
+        it = self._iter_of(self.eval(e["iter"], fr))
+        n = 0
+        for x in it:
+            n += 1
+            if n > 1000000:
+                raise Unsupported("loop bound")
+            if not self.match_pat(e["pat"], x, fr.vars):
+                raise Unsupported("refutable for pattern")
+            try:
+                self.eval(e["body"], fr)
+            except consteval._Break:
+                break
+            except consteval._Continue:
+                continue
+        return ()
+
+    def _e_range(self, e, fr):
+        if not e.get("hi"):
+            raise Unsupported("open range")
+        return Interp._e_range(self, e, fr)
+
+    def _e_struct(self, e, fr):
+        segs = e["path"].split("::")
+        if len(segs) >= 2 and segs[-2] in self._enums and segs[-1] in self._enums[segs[-2]] and not e.get("rest"):
+            return VariantV(segs[-2], segs[-1], {f["name"]: self.eval(f["e"], fr) for f in e["fields"]})
+        rest = e.get("rest")
+        if isinstance(rest, dict) and rest.get("k") == "call" and not rest.get("args") and rest["f"].get("k") == "path" \
+                and rest["f"]["p"].split("::")[-1] == "default" and rest["f"]["p"].split("::")[-2:-1] in (["Default"], []):
+            # `..Default::default()`: the default of the struct being built
+            ty = fr.self_ty if segs[-1] == "Self" else segs[-1]
+            e = dict(e)
+            e["rest"] = {"k": "$value", "v": self.default_of(ty)}
+        return Interp._e_struct(self, e, fr)
+
+    def eval(self, e, fr):
+        if e.get("k") == "$value":
+            return e["v"]
+        return Interp.eval(self, e, fr)
+
+    # ------------------------------------------------------------------ closures and function values
+    def call_closure(self, c, args):
+        if len(c.params) != len(args):
+            raise Unsupported("closure arity")
+        fr = Frame(Scope(c.frame.vars), c.frame.self_ty, c.frame.file)
+        for p, a in zip(c.params, args):
+            if p.get("k") == "type" and isinstance(p.get("pat"), dict):
+                p = p["pat"]
+            if not self.match_pat(p, a, fr.vars):
+                raise Unsupported("refutable closure parameter")
+        try:
+            return self.eval(c.body, fr)
+        except consteval._Return as r:
+            return r.v
+
+    STD_FNS = {
+        "Some": lambda a: some(a[0]),
+        "Ok": lambda a: ("Ok", a[0]),
+        "Err": lambda a: ("Err", a[0]),
+        "Option::is_none": lambda a: a[0] == NONE,
+        "Option::is_some": lambda a: a[0] != NONE,
+        "Result::is_ok": lambda a: a[0][0] == "Ok",
+        "Result::is_err": lambda a: a[0][0] == "Err",
+        "Result::ok": lambda a: some(a[0][1]) if a[0][0] == "Ok" else NONE,
+        "char::is_control": lambda a: is_control(a[0]),
+        "char::is_ascii_digit": lambda a: 0x30 <= a[0] <= 0x39,
+        "u8::is_ascii_digit": lambda a: 0x30 <= a[0] <= 0x39,
+        "char::from": lambda a: CharV(a[0]),
+        "Vec::new": lambda a: [],
+        "Vec::with_capacity": lambda a: [],
+        "Vec::from": lambda a: list(a[0]),
+        "String::new": lambda a: "",
+        "String::with_capacity": lambda a: "",
+        "identity": lambda a: a[0],
+        "str::from_utf8": lambda a: _from_utf8(a[0]),
+        "String::from_utf8": lambda a: _from_utf8(a[0]),
+        "String::from_utf8_lossy": lambda a: bytes(a[0]).decode("utf-8", "replace"),
+        "String::from": lambda a: a[0],
+        "drop": lambda a: (),
+    }
+    for _t in list(_INT_CONSTS) + list(_SINT_CONSTS):
+        STD_FNS[_t + "::from"] = lambda a: int(a[0])
+
+    def apply_fn(self, f, args):
+        if isinstance(f, ClosureV):
+            return self.call_closure(f, args)
+        if isinstance(f, FnV):
+            if f.user is not None:
+                file, tr, item = f.user
+                segs = f.path.split("::")
+                return self.call_item(item, segs[-2] if len(segs) > 1 else None, list(args), file)
+            segs = f.path.split("::")
+            if len(segs) >= 2 and segs[-2] in self._enums and segs[-1] in self._enums[segs[-2]]:
+                return VariantV(segs[-2], segs[-1], list(args))
+            key = "::".join(segs[-2:])
+            h = self.STD_FNS.get(key) or self.STD_FNS.get(segs[-1])
+            if h is not None:
+                return h(list(args))
+            raise Unsupported("function value " + f.path)
+        raise Unsupported("call of a non-function")
+
+    def _truth(self, f, args):
+        r = self.apply_fn(f, args)
+        if not isinstance(r, bool):
+            raise Unsupported("predicate does not yield a bool")
+        return r
+
+    def _e_call(self, e, fr):
+        f = e["f"]
+        if f["k"] == "paren":
+            f = f["e"]
+        args_e = e.get("args") or []
+        if f["k"] != "path":
+            fv = self.eval(f, fr)
+            return self.apply_fn(fv, [self.eval(a, fr) for a in args_e])
+        p = f["p"]
+        if p in fr.vars and isinstance(fr.vars[p], (ClosureV, FnV)):
+            return self.apply_fn(fr.vars[p], [self.eval(a, fr) for a in args_e])
+        segs = re.sub(r"<[^<>]*>", "", p).split("::")
+        name = segs[-1]
+        if p in self.extern_fns or p in ("Some", "Ok", "Err"):
+            return Interp._e_call(self, e, fr)
+        if name == "from_fn" and len(args_e) == 1 and (len(segs) == 1 or segs[-2] == "iter"):
+            c = self.eval(args_e[0], fr)
+
+            def gen(c=c):
+                while True:
+                    r = self.apply_fn(c, [])
+                    if r == NONE:
+                        return
+                    if not _isopt(r):
+                        raise Unsupported("from_fn closure result")
+                    yield r[1]
+            return IterV(gen())
+        if name in ("once", "empty", "repeat") and len(segs) >= 2 and segs[-2] == "iter":
+            vals = [self.eval(a, fr) for a in args_e]
+            if name == "repeat":
+                raise Unsupported("iter::repeat")
+            return IterV(iter(vals))
+        # enum variant with fields built like a function call
+        ety = None
+        if len(segs) >= 2 and (segs[-2] in self._enums or segs[-2] == "Self"):
+            ety = fr.self_ty if segs[-2] == "Self" else segs[-2]
+        elif len(segs) == 1 and len(self._variants.get(name, [])) == 1 and self.find_fn(None, name, file=fr.file) is None:
+            ety = self._variants[name][0]
+        if ety in self._enums and name in self._enums[ety] and self._variant_fields.get((ety, name)):
+            return VariantV(ety, name, [self.eval(a, fr) for a in args_e])
+        if len(segs) >= 2:
+            ty = fr.self_ty if segs[-2] == "Self" else segs[-2]
+            key = "%s::%s" % (segs[-2], name)
+            if self.find_fn(ty, name) is None and not (name == "default" and not args_e) and name != "try_from":
+                h = self.STD_FNS.get(key)
+                if h is not None:
+                    return h([self.eval(a, fr) for a in args_e])
+                # `Type::method(recv, args..)` for a std method: same as `recv.method(args..)`
+                if args_e and (ty[:1].islower() or ty in ("Option", "Result", "Vec", "String", "Iterator", "Write", "Ord", "PartialOrd", "Into", "From", "Clone")):
+                    recv = self.place(args_e[0], fr)
+                    r = self.std_method(recv, name, [self.place(a, fr) for a in args_e[1:]], fr)
+                    if r is not _NOIMPL:
+                        return r
+        elif len(segs) == 1 and self.find_fn(None, name, file=fr.file) is None and self.find_fn(None, name) is not None:
+            return self._apply(self.find_fn(None, name), None, args_e, fr)
+        return Interp._e_call(self, e, fr)
+
+    def _apply(self, fn, ty, args_e, fr, recv=None):
+        """as the base, but an argument written `&x` / `&mut x` (or a receiver) for a by-value generic parameter (`mut out: W`, `impl Write`) is
+        the referenced object itself, not a copy: what the callee writes must be visible to the caller"""
+        file, tr, item = fn
+        inputs = item["sig"]["inputs"]
+        vals, byref = [], []
+        es = list(args_e)
+        for inp in inputs:
+            if inp["name"] == "self" and recv is not None:
+                vals.append(recv)
+                byref.append(True)
+                continue
+            if not es:
+                raise Unsupported("arity of " + item["name"])
+            a = es.pop(0)
+            inner = a
+            while inner.get("k") == "paren":
+                inner = inner["e"]
+            ref = inp["ty"].startswith("&") or inner.get("k") == "ref"
+            vals.append(self._e_ref(inner, fr) if inner.get("k") == "ref" else self.place(a, fr) if ref else self.eval(a, fr))
+            byref.append(ref)
+        if es:
+            raise Unsupported("arity of " + item["name"])
+        return self.call_item(item, ty, vals, file, byref=byref)
+
+    def call_item(self, item, impl_self, args, file=None, memo=True, byref=None):
+        inputs = item["sig"]["inputs"]
+        if len(inputs) != len(args):
+            raise Unsupported("arity of " + item["name"])
+        byref = byref or [inp["ty"].startswith("&") for inp in inputs]
+        hidden = any(r and not inp["ty"].startswith("&") for r, inp in zip(byref, inputs))
+        pure = memo and not hidden and not any(i["ty"].startswith("&mut") for i in inputs)
+        key = None
+        if pure:
+            try:
+                key = (id(item), tuple(freeze(a) for a in args))
+                if key in self._memo:
+                    return copyv(self._memo[key])
+            except TypeError:
+                key = None
+        fr = Frame({}, impl_self, file)
+        for inp, a, r in zip(inputs, args, byref):
+            v = a if r else copyv(a)
+            if inp["name"] == "self":
+                fr.vars["self"] = v
+            elif not self.match_pat(inp["pat"], v, fr.vars):
+                raise Unsupported("refutable parameter pattern")
+        try:
+            r = self.eval(item["body"], fr)
+        except consteval._Return as ex:
+            r = ex.v
+        if key is not None and _plain(r):
+            self._memo[key] = copyv(r)
+        return r
+
+    # ------------------------------------------------------------------ macros
+    def _e_macro(self, e, fr):
+        sh = e.get("short")
+        args = e.get("args")
+        if sh in ("debug_assert", "debug_assert_eq", "debug_assert_ne"):
+            return ()             # absent from release builds; whether it can fire is C05's obligation (DEBUGCHK)
+        if sh in ("panic", "unreachable", "unimplemented", "todo"):
+            raise Panic("%s! reached" % sh)
+        if sh == "assert" and args:
+            if self._cond(args[0], fr) is not True:
+                raise Panic("assert! fails")
+            return ()
+        if sh in ("assert_eq", "assert_ne") and args and len(args) >= 2:
+            if self.binop("==", self.eval(args[0], fr), self.eval(args[1], fr)) != (sh == "assert_eq"):
+                raise Panic(sh + "! fails")
+            return ()
+        if sh in ("write", "writeln") and args and len(args) >= 2:
+            dst = self.place(args[0], fr)
+            data = self.format(args[1:], fr) + ("\n" if sh == "writeln" else "")
+            return self.write_bytes(dst, data.encode("utf-8"))
+        if sh == "format" and args:
+            return self.format(args, fr)
+        if sh == "vec" and args is not None:
+            return [self.eval(a, fr) for a in args]
+        if sh in ("trace", "debug", "info", "warn", "error", "event", "eprintln", "println"):
+            return ()             # logging: no value, no effect on what is written
+        return Interp._e_macro(self, e, fr)
+
+    def format(self, args_e, fr):
+        f0 = args_e[0]
+        if f0.get("k") != "lit" or f0.get("t") != "str":
+            raise Unsupported("format string is not a literal")
+        try:
+            pieces = Tm.parse_format(f0["v"])
+        except Tm.Unsupported as ex:
+            raise Unsupported(str(ex))
+        pos, named = [], {}
+        for a in args_e[1:]:
+            if a.get("k") == "assign" and a["l"].get("k") == "path":
+                named[a["l"]["p"]] = self.eval(a["r"], fr)
+            else:
+                pos.append(self.eval(a, fr))
+        out = []
+        nxt = 0
+        for pc in pieces:
+            if pc[0] == "lit":
+                out.append(pc[1])
+                continue
+            which, spec = pc[1], pc[2]
+            if which[0] == "next":
+                if nxt >= len(pos):
+                    raise Unsupported("format arguments")
+                v = pos[nxt]
+                nxt += 1
+            elif which[0] == "pos":
+                if which[1] >= len(pos):
+                    raise Unsupported("format arguments")
+                v = pos[which[1]]
+            else:
+                v = named[which[1]] if which[1] in named else copyv(self._path_value(which[1], fr))
+            out.append(self.format_value(v, spec))
+        return "".join(out)
+
+    def format_value(self, v, spec):
+        v = deref(v)
+        m = Tm._SPEC_RX.match(spec)
+        if not m:
+            raise Unsupported("format spec {:%s}" % spec)
+        fill, align, sign, alt, zero, width, prec, ty = (m.group(g) for g in ("fill", "align", "sign", "alt", "zero", "width", "prec", "ty"))
+        width = int(width) if width else 0
+        ty = ty or ""
+        numeric = False
+        if isinstance(v, CharV):
+            if ty == "?":
+                body = repr(v)
+            elif ty:
+                raise Unsupported("format spec {:%s} on a char" % spec)
+            else:
+                body = chr(int(v))
+        elif isinstance(v, bool):
+            body = "true" if v else "false"
+        elif _isint(v):
+            numeric = True
+            a = abs(v)
+            if ty in ("", "?"):
+                digits, prefix = str(a), ""
+            elif ty in ("x", "X"):
+                digits, prefix = ("%x" if ty == "x" else "%X") % a, "0x"
+            elif ty == "o":
+                digits, prefix = "%o" % a, "0o"
+            elif ty == "b":
+                digits, prefix = bin(a)[2:], "0b"
+            else:
+                raise Unsupported("format spec {:%s}" % spec)
+            if v < 0 and ty not in ("", "?"):
+                raise Unsupported("radix formatting of a negative number")
+            pre = ("-" if v < 0 else "+" if sign == "+" else "") + (prefix if alt else "")
+            if zero and width > len(pre) + len(digits):
+                digits = "0" * (width - len(pre) - len(digits)) + digits
+            body = pre + digits
+        elif isinstance(v, str):
+            if ty == "?":
+                body = '"%s"' % v
+            elif ty:
+                raise Unsupported("format spec {:%s} on a string" % spec)
+            else:
+                body = v if prec is None else v[:int(prec)]
+        else:
+            raise Unsupported("Display of %s" % type(v).__name__)
+        if width > len(body):
+            pad = width - len(body)
+            fc = fill or " "
+            al = align or (">" if numeric else "<")
+            body = body + fc * pad if al == "<" else fc * pad + body if al == ">" else fc * (pad // 2) + body + fc * (pad - pad // 2)
+        return body
+
+    def write_bytes(self, dst, data):
+        """io::Write::write_all(dst, data) -> Ok(()) (sinks never fail here: I/O errors end the command and are not part of the property)"""
+        data = bytes(data)
+        if isinstance(dst, Sink):
+            dst.data.extend(data)
+            return ("Ok", ())
+        if isinstance(dst, list):
+            dst.extend(data)
+            return ("Ok", ())
+        if isinstance(dst, StructV):
+            f = self.find_fn(dst.ty, "write_all", "Write")
+            if f is not None:
+                return self.call_item(f[2], dst.ty, [dst, data], f[0])
+            f = self.find_fn(dst.ty, "write", "Write")
+            if f is not None:
+                rest = data
+                for _ in range(len(data) + 1):
+                    if not rest:
+                        return ("Ok", ())
+                    r = self.call_item(f[2], dst.ty, [dst, rest], f[0])
+                    if not _isres(r):
+                        raise Unsupported("Write::write result")
+                    if r[0] == "Err":
+                        return r
+                    if not _isint(r[1]) or not 0 < r[1] <= len(rest):
+                        return ("Err", "WriteZero")
+                    rest = rest[r[1]:]
+                return ("Ok", ())
+            f = self.find_fn(dst.ty, "write_str", "Write") or self.find_fn(dst.ty, "write_str", "fmt::Write")
+            if f is not None:
+                return self.call_item(f[2], dst.ty, [dst, data.decode("utf-8")], f[0])
+        raise Unsupported("write into %s" % (dst.ty if isinstance(dst, StructV) else type(dst).__name__))
+
+    # ------------------------------------------------------------------ method calls
+    def _e_mcall(self, e, fr):
+        m = e["m"]
+        recv = deref(self.place(e["recv"], fr))
+        args_e = e.get("args") or []
+        ty = recv.ty if isinstance(recv, (StructV, EnumV, VariantV)) else None
+        if ty is not None:
+            fn = self.find_fn(ty, m)
+            if fn is not None:
+                return self._apply(fn, ty, args_e, fr, recv=recv)
+        if m in self.extern_methods:
+            return self.extern_methods[m](recv, [self.place(a, fr) for a in args_e])
+        tf = (e.get("turbofish") or "")
+        tf = re.sub(r"[\s<>:]", "", tf if isinstance(tf, str) else " ".join(map(str, tf)))
+        r = self.std_method(recv, m, [self.place(a, fr) for a in args_e], fr, turbofish=tf)
+        if r is not _NOIMPL:
+            return r
+        if ty is not None and m in ("into", "clone", "to_owned"):
+            return Interp._e_mcall(self, e, fr)
+        raise Unsupported("method %s on %s" % (m, ty or type(recv).__name__))
+
+    def std_method(self, recv, m, a, fr=None, turbofish=""):
+        n = len(a)
+        if m in ("clone", "to_owned", "cloned", "copied") and n == 0 and not isinstance(recv, IterV) and not _isopt(recv):
+            return copyv(recv)
+        if m in ("borrow", "borrow_mut", "as_ref", "as_mut", "by_ref", "as_slice", "as_mut_slice", "deref", "as_deref") and n == 0 and not _isopt(recv):
+            return recv
+        if m == "into" and n == 0 and not isinstance(recv, (StructV, EnumV, VariantV)):
+            return recv
+        if isinstance(recv, Sink):
+            if m == "write_all" and n == 1:
+                return self.write_bytes(recv, a[0])
+            if m == "write" and n == 1:
+                self.write_bytes(recv, a[0])
+                return ("Ok", len(a[0]))
+            if m == "flush" and n == 0:
+                return ("Ok", ())
+            return _NOIMPL
+        if isinstance(recv, bool):
+            if m == "then" and n == 1:
+                return some(self.apply_fn(a[0], [])) if recv else NONE
+            if m == "then_some" and n == 1:
+                return some(a[0]) if recv else NONE
+            return _NOIMPL
+        if isinstance(recv, CharV):
+            c = int(recv)
+            if n == 0:
+                if m == "is_control":
+                    return is_control(c)
+                if m == "is_ascii":
+                    return c < 128
+                if m == "is_ascii_digit":
+                    return 0x30 <= c <= 0x39
+                if m == "is_ascii_control":
+                    return c < 0x20 or c == 0x7f
+                if m == "len_utf8":
+                    return len(chr(c).encode("utf-8"))
+                if m == "to_string":
+                    return chr(c)
+            return _NOIMPL
+        if _isint(recv):
+            return self._m_int(recv, m, a)
+        if isinstance(recv, float):
+            if n == 1 and isinstance(deref(a[0]), (int, float)) and not isinstance(deref(a[0]), bool):
+                b = float(deref(a[0]))
+                if m == "partial_cmp":
+                    if recv != recv or b != b:
+                        return NONE
+                    return some(EnumV("Ordering", "Less" if recv < b else "Greater" if recv > b else "Equal"))
+                if m == "total_cmp" and recv == recv and b == b:
+                    return EnumV("Ordering", "Less" if recv < b else "Greater" if recv > b else "Equal")
+                if m in ("min", "max") and recv == recv and b == b:
+                    return min(recv, b) if m == "min" else max(recv, b)
+            if n == 0:
+                if m == "abs":
+                    return abs(recv)
+                if m == "is_nan":
+                    return recv != recv
+                if m == "is_finite":
+                    return recv == recv and abs(recv) != float("inf")
+            return _NOIMPL
+        if isinstance(recv, str):
+            if n == 0:
+                if m == "len":
+                    return len(recv.encode("utf-8"))
+                if m == "is_empty":
+                    return recv == ""
+                if m in ("as_bytes", "into_bytes"):
+                    return recv.encode("utf-8")
+                if m == "bytes":
+                    return IterV(iter(recv.encode("utf-8")))
+                if m == "chars":
+                    return IterV(CharV(ord(ch)) for ch in recv)
+                if m in ("to_string", "as_str", "to_owned"):
+                    return recv
+            if m == "contains" and n == 1 and isinstance(a[0], (ClosureV, FnV)):
+                return any(self._truth(a[0], [CharV(ord(ch))]) for ch in recv)
+            if m == "parse" and n == 0 and turbofish in _INT_CONSTS:
+                # <uN as FromStr>: an optional '+', then one or more ASCII digits, value in range
+                body = recv[1:] if recv[:1] == "+" else recv
+                if body and all("0" <= ch <= "9" for ch in body) and int(body) < (1 << _INT_CONSTS[turbofish]):
+                    return ("Ok", int(body))
+                return ("Err", "ParseIntError")
+            return _NOIMPL
+        if _isopt(recv) or _isres(recv):
+            return self._m_optres(recv, m, a)
+        if isinstance(recv, EnumV) and recv.ty == "Ordering" and n == 0:
+            if m in ("is_lt", "is_gt", "is_eq", "is_le", "is_ge", "is_ne"):
+                return {"is_lt": recv.name == "Less", "is_gt": recv.name == "Greater", "is_eq": recv.name == "Equal",
+                        "is_le": recv.name != "Greater", "is_ge": recv.name != "Less", "is_ne": recv.name != "Equal"}[m]
+            if m == "reverse":
+                return EnumV("Ordering", {"Less": "Greater", "Greater": "Less", "Equal": "Equal"}[recv.name])
+        if isinstance(recv, tuple) and not isinstance(recv, EnumV) and recv[:1] == ("RGBA",) and len(recv) == 5 and n == 0:
+            if m == "to_rgb":
+                return list(recv[1:4])
+            if m == "to_rgba":
+                return list(recv[1:5])
+            if m in ("red", "green", "blue", "alpha"):
+                return recv[1 + ("red", "green", "blue", "alpha").index(m)]
+        if isinstance(recv, IterV):
+            return self._m_iter(recv, m, a)
+        if isinstance(recv, (list, bytes, bytearray)):
+            return self._m_seq(recv, m, a)
+        return _NOIMPL
+
+    def _m_int(self, v, m, a):
+        n = len(a)
+        if n == 1 and _isint(a[0]):
+            b = a[0]
+            # the integer type is not tracked: checked/saturating/wrapping arithmetic is that of usize/u64 (callers keep values small)
+            if m in ("checked_add", "checked_sub", "checked_mul"):
+                r = v + b if m == "checked_add" else v - b if m == "checked_sub" else v * b
+                return some(r) if 0 <= r <= U64 else NONE
+            if m in ("checked_div", "checked_rem"):
+                if b == 0:
+                    return NONE
+                return some(v // b if m == "checked_div" else v % b)
+            if m in ("saturating_add", "saturating_sub", "saturating_mul"):
+                r = v + b if m == "saturating_add" else v - b if m == "saturating_sub" else v * b
+                return max(0, min(r, U64))
+            if m in ("wrapping_add", "wrapping_sub", "wrapping_mul"):
+                r = v + b if m == "wrapping_add" else v - b if m == "wrapping_sub" else v * b
+                return r & U64
+            if m == "min":
+                return min(v, b)
+            if m == "max":
+                return max(v, b)
+            if m == "pow":
+                return v ** b
+            if m == "abs_diff":
+                return abs(v - b)
+            if m == "cmp":
+                return EnumV("Ordering", "Less" if v < b else "Greater" if v > b else "Equal")
+            if m == "partial_cmp":
+                return some(EnumV("Ordering", "Less" if v < b else "Greater" if v > b else "Equal"))
+            if m in ("eq", "ne", "lt", "le", "gt", "ge"):
+                return {"eq": v == b, "ne": v != b, "lt": v < b, "le": v <= b, "gt": v > b, "ge": v >= b}[m]
+            if m in ("div_euclid", "rem_euclid") and b > 0 and v >= 0:
+                return v // b if m == "div_euclid" else v % b
+        if n == 2 and m == "clamp" and _isint(a[0]) and _isint(a[1]):
+            if a[0] > a[1]:
+                raise Panic("clamp with min > max")
+            return max(a[0], min(v, a[1]))
+        if n == 0:
+            if m in ("abs", "unsigned_abs"):
+                return abs(v)
+            if m == "is_ascii_digit":
+                return 0x30 <= v <= 0x39
+            if m == "is_ascii_control":
+                return v < 0x20 or v == 0x7f
+            if m == "to_string":
+                return str(v)
+            if m == "count_ones":
+                return bin(v).count("1")
+            if m == "leading_ones":
+                k = 0
+                while k < 8 and v >> (7 - k) & 1:
+                    k += 1
+                return k
+            if m == "signum":
+                return (v > 0) - (v < 0)
+        return _NOIMPL
+
+    def _m_optres(self, v, m, a):
+        n = len(a)
+        tag = v[0]
+        has = tag in ("Some", "Ok")
+        x = v[1] if len(v) == 2 else None
+        opt = _isopt(v)
+        if n == 0:
+            if m == "is_some" and opt:
+                return has
+            if m == "is_none" and opt:
+                return not has
+            if m == "is_ok" and not opt:
+                return has
+            if m == "is_err" and not opt:
+                return not has
+            if m in ("unwrap", "expect"):
+                if has:
+                    return x
+                raise Panic("unwrap of " + tag)
+            if m in ("copied", "cloned", "as_ref", "as_mut", "as_deref", "as_deref_mut"):
+                return v
+            if m == "ok" and not opt:
+                return some(x) if has else NONE
+            if m == "err" and not opt:
+                return NONE if has else some(x)
+            if m in ("iter", "into_iter") and opt:
+                return IterV(iter([x] if has else []))
+            if m == "flatten" and opt:
+                return x if has else NONE
+            if m == "unwrap_or_default":
+                if has:
+                    return x
+                raise Unsupported("unwrap_or_default of an empty value")
+        if n == 1:
+            f = a[0]
+            if m == "expect":
+                if has:
+                    return x
+                raise Panic("expect of " + tag)
+            if m == "map":
+                return (tag, self.apply_fn(f, [x])) if has else v
+            if m == "map_err" and not opt:
+                return v if has else ("Err", self.apply_fn(f, [x]))
+            if m == "and_then":
+                return self.apply_fn(f, [x]) if has else v
+            if m == "and":
+                return f if has else v
+            if m == "filter" and opt:
+                return v if has and self._truth(f, [x]) else NONE
+            if m == "or":
+                return v if has else f
+            if m == "or_else":
+                return v if has else self.apply_fn(f, [] if opt else [x])
+            if m == "unwrap_or":
+                return x if has else f
+            if m == "unwrap_or_else":
+                return x if has else self.apply_fn(f, [] if opt else [x])
+            if m == "ok_or" and opt:
+                return ("Ok", x) if has else ("Err", f)
+            if m == "ok_or_else" and opt:
+                return ("Ok", x) if has else ("Err", self.apply_fn(f, []))
+            if m == "is_some_and" and opt:
+                return has and self._truth(f, [x])
+            if m == "is_none_or" and opt:
+                return (not has) or self._truth(f, [x])
+            if m == "is_ok_and" and not opt:
+                return has and self._truth(f, [x])
+            if m == "zip" and opt:
+                return some((x, f[1])) if has and _isopt(f) and f != NONE else NONE
+            if m == "xor" and opt:
+                fh = f != NONE
+                return v if has and not fh else f if fh and not has else NONE
+            if m == "contains":
+                return has and x == f
+        if n == 2:
+            if m == "map_or":
+                return self.apply_fn(a[1], [x]) if has else a[0]
+            if m == "map_or_else":
+                return self.apply_fn(a[1], [x]) if has else self.apply_fn(a[0], [] if opt else [x])
+        return _NOIMPL
+
+    def _m_seq(self, s, m, a):
+        n = len(a)
+        mutable = isinstance(s, list)
+        if n == 0:
+            if m == "len":
+                return len(s)
+            if m == "is_empty":
+                return len(s) == 0
+            if m in ("iter", "into_iter", "iter_mut"):
+                return IterV(self._live(s))
+            if m in ("first", "last"):
+                return some(s[0 if m == "first" else -1]) if len(s) else NONE
+            if m in ("to_vec", "into_vec", "to_owned"):
+                return [copyv(x) for x in s]
+            if m == "clear" and mutable:
+                del s[:]
+                return ()
+            if m == "pop" and mutable:
+                return some(s.pop()) if s else NONE
+            if m in ("shrink_to_fit", "flush") and mutable:
+                return ("Ok", ()) if m == "flush" else ()
+            if m == "concat":
+                out = []
+                for x in s:
+                    out.extend(x)
+                return out
+        if n == 1:
+            x = a[0]
+            if m == "push" and mutable:
+                s.append(x)
+                return ()
+            if m in ("extend", "extend_from_slice", "append") and mutable:
+                s.extend(list(self._iter_of(x)))
+                if m == "append" and isinstance(x, list):
+                    del x[:]
+                return ()
+            if m in ("reserve", "reserve_exact", "shrink_to") and mutable and _isint(x):
+                return ()
+            if m == "truncate" and mutable and _isint(x):
+                del s[x:]
+                return ()
+            if m == "write_all" and mutable:
+                s.extend(bytes(x))
+                return ("Ok", ())
+            if m == "write" and mutable:
+                s.extend(bytes(x))
+                return ("Ok", len(x))
+            if m == "contains":
+                return any(self.binop("==", y, x) for y in s)
+            if m in ("starts_with", "ends_with") and isinstance(x, (list, bytes, bytearray)):
+                k = len(x)
+                return k <= len(s) and list(s[:k] if m == "starts_with" else s[len(s) - k:]) == list(x)
+            if m == "get":
+                if _isint(x):
+                    return some(s[x]) if 0 <= x < len(s) else NONE
+                return _NOIMPL
+            if m == "split" and isinstance(x, (ClosureV, FnV)):
+                return SplitIter(s if isinstance(s, (bytes, bytearray)) else list(s), lambda b, f=x: self._truth(f, [b]))
+            if m in ("windows", "chunks", "chunks_exact") and _isint(x):
+                if x == 0:
+                    raise Panic(m + "(0)")
+                if m == "windows":
+                    return IterV(s[i:i + x] for i in range(0, len(s) - x + 1))
+                end = len(s) - len(s) % x if m == "chunks_exact" else len(s)
+                return IterV(s[i:i + x] for i in range(0, end, x))
+            if m == "map" and isinstance(x, (ClosureV, FnV)):
+                return [self.apply_fn(x, [copyv(y)]) for y in s]
+            if m in ("binary_search_by", "partition_point") and isinstance(x, (ClosureV, FnV)):
+                # core::slice::binary_search_by: Ok(position of an element the comparator calls Equal) | Err(insertion point); bisection as in std
+                lo, hi = 0, len(s)
+                while lo < hi:
+                    mid = lo + (hi - lo) // 2
+                    r = self.apply_fn(x, [s[mid]])
+                    if m == "partition_point":
+                        if not isinstance(r, bool):
+                            raise Unsupported("partition_point predicate")
+                        lo, hi = (mid + 1, hi) if r else (lo, mid)
+                        continue
+                    if not (isinstance(r, EnumV) and r.ty == "Ordering"):
+                        raise Unsupported("comparator result")
+                    if r.name == "Equal":
+                        return ("Ok", mid)
+                    lo, hi = (mid + 1, hi) if r.name == "Less" else (lo, mid)
+                return lo if m == "partition_point" else ("Err", lo)
+            if m == "binary_search" and not isinstance(x, (ClosureV, FnV)):
+                lo, hi = 0, len(s)
+                while lo < hi:
+                    mid = lo + (hi - lo) // 2
+                    if s[mid] == x:
+                        return ("Ok", mid)
+                    lo, hi = (mid + 1, hi) if s[mid] < x else (lo, mid)
+                return ("Err", lo)
+            if m == "repeat" and _isint(x):
+                return list(s) * x
+            if m in ("eq", "ne") and isinstance(x, (list, bytes, bytearray)):
+                return (list(s) == list(x)) == (m == "eq")
+        return _NOIMPL
+
+    @staticmethod
+    def _live(s):
+        i = 0
+        while i < len(s):
+            yield s[i]
+            i += 1
+
+    def _m_iter(self, it, m, a):
+        n = len(a)
+        f = a[0] if n else None
+        if n == 0:
+            if m == "next":
+                return it.nxt()
+            if m == "size_hint":
+                return it.size_hint()
+            if m in ("by_ref", "into_iter", "iter", "copied", "cloned", "fuse"):
+                return it
+            if m == "peekable":
+                return it
+            if m == "peek":
+                return it.peek()
+            if m == "enumerate":
+                return IterV((i, x) for i, x in enumerate(it))
+            if m == "count":
+                return sum(1 for _ in it)
+            if m == "last":
+                r = NONE
+                for x in it:
+                    r = some(x)
+                return r
+            if m == "collect":
+                return list(it)
+            if m == "rev":
+                return IterV(iter(list(it)[::-1]))
+            if m == "flatten":
+                return IterV(y for x in it for y in self._iter_of(x))
+            if m in ("sum", "max", "min"):
+                xs = list(it)
+                if not all(_isint(x) for x in xs):
+                    raise Unsupported(m + " of non-integers")
+                if m == "sum":
+                    return sum(xs)
+                return some(max(xs) if m == "max" else min(xs)) if xs else NONE
+        if n == 1:
+            if m in ("take", "skip", "nth", "step_by") and _isint(f):
+                if m == "take":
+                    def gen(k=f):
+                        for _ in range(k):
+                            v = it.nxt()
+                            if v == NONE:
+                                return
+                            yield v[1]
+                    return IterV(gen())
+                if m == "skip":
+                    def gen(k=f):
+                        for _ in range(k):
+                            if it.nxt() == NONE:
+                                return
+                        for x in it:
+                            yield x
+                    return IterV(gen())
+                if m == "nth":
+                    for _ in range(f):
+                        if it.nxt() == NONE:
+                            return NONE
+                    return it.nxt()
+                return _NOIMPL
+            if m == "map":
+                return IterV(self.apply_fn(f, [x]) for x in it)
+            if m == "filter":
+                return IterV(x for x in it if self._truth(f, [x]))
+            if m == "filter_map":
+                return IterV(r[1] for r in (self.apply_fn(f, [x]) for x in it) if r != NONE)
+            if m == "flat_map":
+                return IterV(y for x in it for y in self._iter_of(self.apply_fn(f, [x])))
+            if m == "take_while":
+                def gen():
+                    for x in it:
+                        if not self._truth(f, [x]):
+                            return
+                        yield x
+                return IterV(gen())
+            if m == "skip_while":
+                def gen():
+                    skipping = True
+                    for x in it:
+                        if skipping and self._truth(f, [x]):
+                            continue
+                        skipping = False
+                        yield x
+                return IterV(gen())
+            if m == "inspect":
+                def gen():
+                    for x in it:
+                        self.apply_fn(f, [x])
+                        yield x
+                return IterV(gen())
+            if m == "all":
+                for x in it:
+                    if not self._truth(f, [x]):
+                        return False
+                return True
+            if m == "any":
+                for x in it:
+                    if self._truth(f, [x]):
+                        return True
+                return False
+            if m == "find":
+                for x in it:
+                    if self._truth(f, [x]):
+                        return some(x)
+                return NONE
+            if m == "find_map":
+                for x in it:
+                    r = self.apply_fn(f, [x])
+                    if r != NONE:
+                        return r
+                return NONE
+            if m == "position":
+                for i, x in enumerate(it):
+                    if self._truth(f, [x]):
+                        return some(i)
+                return NONE
+            if m == "for_each":
+                for x in it:
+                    self.apply_fn(f, [x])
+                return ()
+            if m == "try_for_each":
+                for x in it:
+                    r = self.apply_fn(f, [x])
+                    if r == NONE or (_isres(r) and r[0] == "Err"):
+                        return r
+                    if not (_isres(r) or _isopt(r)):
+                        raise Unsupported("try_for_each closure result")
+                return ("Ok", ())
+            if m in ("chain", "zip"):
+                other = self._iter_of(f)
+                if m == "chain":
+                    return IterV(x for src_ in (it, other) for x in src_)
+                return IterV(zip(it, other))
+            if m in ("max_by_key", "min_by_key"):
+                xs = list(it)
+                if not xs:
+                    return NONE
+                ks = [self.apply_fn(f, [x]) for x in xs]
+                best = 0
+                for i in range(1, len(xs)):
+                    if (m == "max_by_key" and ks[i] >= ks[best]) or (m == "min_by_key" and ks[i] < ks[best]):
+                        best = i
+                return some(xs[best])
+        if n == 2:
+            if m == "scan":
+                cell = [a[0]]
+                state = MutRef(lambda: cell[0], lambda nv: cell.__setitem__(0, nv))
+
+                def gen(f=a[1]):
+                    for x in it:
+                        r = self.apply_fn(f, [state, x])
+                        if r == NONE:
+                            return
+                        if not _isopt(r):
+                            raise Unsupported("scan closure result")
+                        yield r[1]
+                return IterV(gen())
+            if m == "fold":
+                acc = a[0]
+                for x in it:
+                    acc = self.apply_fn(a[1], [acc, x])
+                return acc
+            if m == "try_fold":
+                acc = a[0]
+                kind = None
+                for x in it:
+                    r = self.apply_fn(a[1], [acc, x])
+                    if r == NONE or (_isres(r) and r[0] == "Err"):
+                        return r
+                    if not (_isres(r) or _isopt(r)):
+                        raise Unsupported("try_fold closure result")
+                    acc = r[1]
+                    kind = r[0]
+                if kind is None:
+                    # nothing was folded: Some(init) or Ok(init), by what the closure's own body produces
+                    body = a[1].body if isinstance(a[1], ClosureV) else None
+                    opt = body is not None and bool(find_all(body, lambda n_: (n_.get("k") == "path" and n_.get("p") in ("None", "Some")) or (n_.get("k") == "ident" and n_.get("name") == "None")))
+                    res = body is not None and bool(find_all(body, lambda n_: n_.get("k") == "path" and n_.get("p") in ("Ok", "Err")))
+                    if opt == res:
+                        raise Unsupported("try_fold over an empty iterator (Option or Result?)")
+                    kind = "Some" if opt else "Ok"
+                return (kind, acc)
+        return _NOIMPL
+
+
+_NOIMPL = object()
+
+
+class Dual:
+    """the plain evaluator where it suffices (it is several times faster on the 256x256 sweeps), the one with the std models for a function
+    whose source needs them; both give a function the same value wherever both are defined"""
+    def __init__(self, src, ev):
+        self.fast = Interp(src)
+        self.fast.extern_fns.update(ev.extern_fns)
+        self.ev = ev
+        self.slow = set()
+        self.seen = set()
+
+    @property
+    def steps(self):
+        return self.fast.steps + self.ev.steps
+
+    def find_fn(self, *a, **kw):
+        return self.fast.find_fn(*a, **kw)
+
+    def default_of(self, ty):
+        try:
+            return self.fast.default_of(ty)
+        except Unsupported:
+            return self.ev.default_of(ty)
+
+    def const(self, impl_self, name, file=None):
+        try:
+            return self.fast.const(impl_self, name, file)
+        except Unsupported:
+            return self.ev.const(impl_self, name, file)
+
+    def call(self, impl_self, name, args, impl_trait=None, file=None):
+        f = self.fast.find_fn(impl_self, name, impl_trait, file)
+        if f is None:
+            raise Unsupported("fn %s::%s not found" % (impl_self, name))
+        return self.call_item(f[2], impl_self, args, f[0])
+
+    def call_item(self, item, impl_self, args, file=None, memo=True):
+        key = id(item)
+        if key in self.slow:
+            return self.ev.call_item(item, impl_self, args, file, memo)
+        saved = None
+        if key not in self.seen:
+            saved = [copyv(a) for a in args]
+        try:
+            r = self.fast.call_item(item, impl_self, args, file, memo)
+            self.seen.add(key)
+            return r
+        except Unsupported:
+            if saved is None and any(i["ty"].startswith("&mut") for i in item["sig"]["inputs"]):
+                raise
+            self.slow.add(key)
+            if saved is not None:
+                for a, b in zip(args, saved):
+                    if isinstance(a, StructV):
+                        a.ty, a.fields = b.ty, b.fields
+            return self.ev.call_item(item, impl_self, args, file, memo)
+
+
+# ------------------------------------------------------------------------------------------ (a) the SGR round trip, by evaluation
+ESC_CSI = b"\x1b["
+SEP = ord(";")           # ECMA-48 5.4.2: parameter sub-strings are separated by 03/11
+SUBSEP = ord(":")        # ... 03/10 separates the parts of one parameter sub-string (ITU T.416 colour form)
+RGB = (11, 22, 66)       # three distinct components, none of them a SGR code the decoder knows (so a stray component cannot pass for an attribute)
+UCONST = {"Straight": "UNDERLINE", "Double": "UNDERLINE_DOUBLE", "Curly": "UNDERLINE_CURLY", "Dotted": "UNDERLINE_DOTTED", "Dashed": "UNDERLINE_DASHED"}
+FLAG_NAMES = ["BOLD", "ITALIC", "BLINK", "REVERSE", "STRIKE"]
+
+
+def colour(rgb=RGB):
+    return ("RGBA",) + tuple(rgb) + (255,)
+
+
+def sgr_payload(out):
+    """parameter bytes of `ESC [ <parameters> m`; None when `out` is not one SGR control sequence"""
+    if len(out) >= 3 and out[:2] == ESC_CSI and out[-1:] == b"m" and all(0x30 <= c <= 0x3f for c in out[2:-1]):
+        return out[2:-1]
+    return None
+
+
+def shb(b):
+    return "".join("ESC" if c == 0x1b else chr(c) if 32 <= c < 127 else "\\x%02x" % c for c in b) or "(nothing)"
+
+
+def mod_text(m):
+    """FaceModify record / other value in few words"""
+    if not isinstance(m, StructV):
+        return str(m)
+    parts = []
+    for k2, v in m.fields.items():
+        if v is False or v == NONE:
+            continue
+        if isinstance(v, tuple) and v and v[0] == "Some":
+            v = v[1]
+        if isinstance(v, tuple) and v and v[0] == "RGBA":
+            v = "rgb(%d,%d,%d)" % v[1:4]
+        parts.append("%s=%s" % (k2, v.name if isinstance(v, EnumV) else str(v).lower() if isinstance(v, bool) else v))
+    return "{%s}" % ", ".join(parts)
+
+
+class SgrWorld:
+    """the encoder and decoder entry points as evaluable items, and constructors for their inputs"""
+    def __init__(self, it, src):
+        self.it = it
+        self.src = src
+        self.problems = []
+        self.enc = it.find_fn("TTYEncoder", "encode", "Encoder") or it.find_fn("TTYEncoder", "encode")
+        self.new = it.find_fn("TTYEncoder", "new")
+        self.sgr_face = it.find_fn(None, "sgr_face", file=DEC) or it.find_fn(None, "sgr_face")
+        self.decode = it.find_fn("GraphicRenditionMatcher", "decode", "Matcher") or it.find_fn("GraphicRenditionMatcher", "decode")
+        self.st_mod = src.struct("FaceModify")
+        self.st_face = src.struct("Face")
+        self.st_enc = src.struct("TTYEncoder")
+        self.st_caps = src.struct("TerminalCaps")
+        self.en_style = src.enum("UnderlineStyle")
+        self.en_cmd = src.enum("TerminalCommand")
+        self.en_depth = src.enum("ColorDepth")
+        for name, v in (("TTYEncoder::encode", self.enc), ("sgr_face", self.sgr_face), ("GraphicRenditionMatcher::decode", self.decode), ("struct FaceModify", self.st_mod),
+                        ("struct Face", self.st_face), ("struct TTYEncoder", self.st_enc), ("struct TerminalCaps", self.st_caps), ("enum UnderlineStyle", self.en_style),
+                        ("enum TerminalCommand", self.en_cmd), ("enum ColorDepth", self.en_depth)):
+            if v is None:
+                self.problems.append(name)
+        self.ok = not self.problems
+        if not self.ok:
+            return
+        self.styles = [v["name"] for v in self.en_style[1]["variants"]]
+        self.fm_fields = {f["name"]: f["ty"].replace(" ", "") for f in self.st_mod[1]["fields"]}
+        self.bool_fields = [n for n, t in self.fm_fields.items() if t == "Option<bool>"]
+        self.colour_fields = [n for n, t in self.fm_fields.items() if t == "Option<RGBA>"]
+        self.cmd_variants = [v["name"] for v in self.en_cmd[1]["variants"]]
+        if "TrueColor" not in [v["name"] for v in self.en_depth[1]["variants"]]:
+            self.problems.append("ColorDepth::TrueColor")
+            self.ok = False
+
+    # ---- inputs
+    def caps(self):
+        fields = {}
+        for f in self.st_caps[1]["fields"]:
+            ty = f["ty"].replace(" ", "")
+            fields[f["name"]] = EnumV("ColorDepth", "TrueColor") if ty == "ColorDepth" else self.it.default_of(ty)
+        return StructV("TerminalCaps", fields)
+
+    def encoder(self):
+        it = self.it
+        caps = self.caps()
+        if self.new is not None and [i["name"] for i in self.new[2]["sig"]["inputs"]] != ["self"] and len(self.new[2]["sig"]["inputs"]) == 1:
+            return it.call_item(self.new[2], "TTYEncoder", [caps], self.new[0], memo=False)
+        fields = {}
+        for f in self.st_enc[1]["fields"]:
+            ty = f["ty"].replace(" ", "")
+            fields[f["name"]] = caps if ty == "TerminalCaps" else it.default_of(ty)
+        return StructV("TTYEncoder", fields)
+
+    def mod(self, **kw):
+        m = self.it.default_of("FaceModify")
+        for k2, v in kw.items():
+            m.fields[k2] = v
+        return m
+
+    def face(self, fg=NONE, bg=NONE, bits=0):
+        return StructV("Face", {"fg": fg, "bg": bg, "attrs": StructV("FaceAttrs", {"bits": bits})})
+
+    # ---- the two functions
+    def encode(self, variant, *payload):
+        """bytes written by TTYEncoder::encode (true-colour capabilities, fresh encoder) for TerminalCommand::<variant>(payload..)"""
+        it = self.it
+        cmd = VariantV("TerminalCommand", variant, list(payload)) if payload else EnumV("TerminalCommand", variant)
+        sink = Sink()
+        r = it.call_item(self.enc[2], "TTYEncoder", [self.encoder(), sink, cmd], self.enc[0], memo=False)
+        if r != ("Ok", ()):
+            raise Unsupported("encode returned %r" % (r,))
+        return bytes(sink.data)
+
+    def read(self, payload):
+        """record sgr_face yields for the parameter bytes"""
+        return self.it.call_item(self.sgr_face[2], None, [bytes(payload)], self.sgr_face[0])
+
+    def read_sequence(self, out):
+        """GraphicRenditionMatcher::decode on a whole `ESC [ .. m`"""
+        return self.it.call_item(self.decode[2], "GraphicRenditionMatcher", [StructV("GraphicRenditionMatcher", {}), bytes(out)], self.decode[0])
+
+
+def sgr_rules(ctx, it, src, ref):
+    """rules SGR-TABLE / SGR-COLOR / SGR-FRAME; returns True when everything was evaluable"""
+    ctx.rule("SGR-TABLE", "every face modification a FaceModify can express, and every Face attribute, is written by TTYEncoder::encode (true colour) as an SGR sequence that "
+                          "sgr_face reads back as the same field and value; a later reset parameter discards what was read before it", floor=31)
+    ctx.rule("SGR-COLOR", "true-colour form <38|48|58>;2;r;g;b: each role and the component order are read back, also when another parameter follows; the ';' form is the one read; "
+                          "components > 255 yield no colour", floor=7)
+    ctx.rule("SGR-FRAME", "the output is one ESC [ p1 ; p2 .. m with the reset parameter first; the parameters of a combined change are those of its parts joined by ';'; "
+                          "the decoder hands exactly the parameter bytes to sgr_face", floor=5)
+    w = SgrWorld(it, src)
+    if not w.ok:
+        ctx.anchor("SGR-TABLE", "encoder-arms/sgr_face", "not found: %s" % ", ".join(w.problems))
+        return False
+    ok_all = [True]
+    reported = set()
+
+    def violation(rule, where, label, msg, sites, **kw):
+        if (rule, where, label) in reported:
+            return
+        reported.add((rule, where, label))
+        ctx.violation(rule, where, label, msg, sites=sites, **kw)
+
+    def guarded(where, what, fn):
+        """value of fn(), or None after an anchor when the source leaves the evaluable subset / panics"""
+        try:
+            return fn()
+        except Panic as ex:
+            ok_all[0] = False
+            violation("SGR-TABLE", where, "panics", "%s panics: %s" % (what, ex), [ENC])
+        except Unsupported as ex:
+            ok_all[0] = False
+            if (where, "not-evaluable") not in reported:
+                reported.add((where, "not-evaluable"))
+                ctx.anchor("SGR-TABLE", where + "/not-evaluable", "%s is not evaluable (construct outside the modelled subset, fail closed): %s" % (what, ex))
+        return None
+
+    enc_site = ["%s:%d" % (w.enc[0], w.enc[2]["line"])]
+    dec_site = ["%s:%d" % (w.sgr_face[0], w.sgr_face[2]["line"])]
+    C = colour()
+
+    # ------------------------------------------------------------ rows: what a FaceModify / a Face can express
+    fm_rows = [("reset", "True", {"reset": True}, "reset")]
+    fm_rows += [(c, None, {c: some(C)}, "%s-colour" % c) for c in w.colour_fields]
+    fm_rows += [("underline", s, {"underline": some(EnumV("UnderlineStyle", s))}, "underline-%s" % s) for s in w.styles]
+    fm_rows += [(b, str(v), {b: some(v)}, "%s-%s" % (b, "on" if v else "off")) for b in w.bool_fields for v in (True, False)]
+
+    flag_bits = {}
+    for cn in FLAG_NAMES:
+        v = guarded("FaceAttrs", "FaceAttrs::" + cn, lambda: it.const("FaceAttrs", cn))
+        if isinstance(v, StructV) and isinstance(v.fields.get("bits"), int):
+            flag_bits[cn] = v.fields["bits"]
+    style_bits = {}
+    for s, cn in UCONST.items():
+        v = guarded("FaceAttrs", "FaceAttrs::" + cn, lambda: it.const("FaceAttrs", cn))
+        if isinstance(v, StructV) and isinstance(v.fields.get("bits"), int):
+            style_bits[s] = v.fields["bits"]
+    face_rows = [("reset", w.face(), {}, "reset")]
+    face_rows += [(c, w.face(**{c: some(C)}), {c: some(C)}, "%s-colour" % c) for c in ("fg", "bg")]
+    face_rows += [("underline", w.face(bits=style_bits[s]), {"underline": some(EnumV("UnderlineStyle", s))}, "underline-%s" % s) for s in w.styles if s in style_bits]
+    for cn in FLAG_NAMES:
+        if cn in flag_bits:
+            fld = cn.lower()
+            face_rows.append((fld if fld in w.fm_fields else "attrs:" + cn, w.face(bits=flag_bits[cn]), {fld: some(True)} if fld in w.fm_fields else {}, "%s-on" % fld if fld in w.fm_fields else "%s-misread" % cn))
+    if len(flag_bits) != len(FLAG_NAMES) or len(style_bits) != len(UCONST):
+        ctx.anchor("SGR-TABLE", "FaceAttrs-constants", "attribute constants of FaceAttrs not found: %s" % sorted(set(FLAG_NAMES + list(UCONST.values())) - set(flag_bits) - {UCONST[s] for s in style_bits}))
+        ok_all[0] = False
+
+    single = {}          # label -> (payload, record) of the FaceModify rows that round-trip
+
+    def chunks_of(payload):
+        return payload.split(bytes([SEP]))
+
+    # ------------------------------------------------------------ SGR-TABLE, one row at a time
+    for arm_name in ("FaceModify", "Face"):
+        where = "TTYEncoder::encode/" + arm_name
+        rows = fm_rows if arm_name == "FaceModify" else face_rows
+        framing_ok = True
+        reset_first = True
+        reset_payload = None
+        order = []
+        for row in rows:
+            fld, val, kw, label = row[0], row[1], row[2], row[3]
+            if arm_name == "FaceModify":
+                arg = w.mod(**kw)
+                want = arg
+            else:
+                arg = row[1]
+                want = w.mod(reset=True, **kw)
+                val = "True" if kw else None
+            out = guarded(where, "TTYEncoder::encode(%s(%s))" % (arm_name, mod_text(arg) if arm_name == "FaceModify" else label), lambda: w.encode(arm_name, arg))
+            if out is None:
+                ctx.instance("SGR-TABLE", {"arm": arm_name, "row": label, "evaluable": False})
+                continue
+            if out == b"":
+                ctx.instance("SGR-TABLE", {"arm": arm_name, "row": label, "written": ""})
+                violation("SGR-TABLE", where, "missing-%s-%s" % (fld, val), "%s.%s = %s is never written by the encoder (nothing is emitted)" % (arm_name, fld, val), enc_site)
+                continue
+            payload = sgr_payload(out)
+            if payload is None:
+                framing_ok = False
+                ctx.instance("SGR-TABLE", {"arm": arm_name, "row": label, "written": shb(out), "framed": False})
+                violation("SGR-FRAME", where, "framing", "%s is written as %s, which is not one ESC [ <parameters> m sequence" % (label, shb(out)), enc_site)
+                continue
+            got = guarded("decoder::sgr_face", "sgr_face(%s)" % shb(payload), lambda: w.read(payload))
+            ctx.instance("SGR-TABLE", {"arm": arm_name, "row": label, "written": shb(out), "read_back": mod_text(got)}, nontrivial=bool(kw) or arm_name == "FaceModify")
+            if got is None:
+                continue
+            if not isinstance(got, StructV) or got.ty != "FaceModify":
+                ok_all[0] = False
+                ctx.anchor("SGR-TABLE", "sgr_face-result", "sgr_face does not yield a FaceModify record: %r" % (got,))
+                break
+            order.append(label)
+            if label == "reset":
+                reset_payload = payload
+            elif reset_payload is not None and arm_name == "Face" and chunks_of(payload)[:len(chunks_of(reset_payload))] != chunks_of(reset_payload):
+                reset_first = False
+            if got == want:
+                if arm_name == "FaceModify":
+                    single[label] = (payload, want, fld)
+                continue
+            if fld.startswith("attrs:"):
+                violation("SGR-TABLE", where, label, "attribute %s (not expressible by FaceModify) is written as %s and read back as %s" % (fld[6:], shb(payload), mod_text(got)), enc_site)
+            elif kw and list(kw)[0] in w.colour_fields and label.endswith("-colour"):
+                c = list(kw)[0]
+                elsewhere = [o for o in w.colour_fields if o != c and got.fields.get(o) != NONE]
+                if got.fields.get(c) == NONE and elsewhere:
+                    violation("SGR-TABLE", where, label, "colour field %s is written as %s and read back as %s" % (c, shb(payload), mod_text(got)), enc_site)
+                else:
+                    # right role (or no colour at all): a matter of the colour sub-protocol; does the ':' form fare better?
+                    alt = payload.replace(bytes([SEP]), bytes([SUBSEP]))
+                    if arm_name == "Face":
+                        alt = bytes([SEP]).join([ch for ch in chunks_of(payload)[:1]] + [bytes([SUBSEP]).join(chunks_of(payload)[1:])])
+                    got2 = guarded("decoder::sgr_face", "sgr_face(%s)" % shb(alt), lambda: w.read(alt))
+                    if got2 is not None and got2.fields.get(c) == some(C) and got.fields.get(c) == NONE:
+                        violation("SGR-COLOR", "decoder::sgr_face", "thunk-iterators",
+                                  "the encoder writes %s as %s (parameters separated by ';') but sgr_face reads a colour only from the ':' form: %s gives %s, %s gives %s"
+                                  % (c, shb(payload), shb(payload), mod_text(got), shb(alt), mod_text(got2)), dec_site)
+                    else:
+                        violation("SGR-COLOR", "decoder::sgr_color", "component-order", "%s written for %s = rgb(%d,%d,%d) is read back as %s" % ((shb(payload), c) + RGB + (mod_text(got),)), dec_site,
+                                  detail={"written": shb(payload), "read": mod_text(got)})
+            else:
+                violation("SGR-TABLE", where, label, "%s is written as SGR %s which sgr_face reads as %s" % (mod_text(want), shb(payload), mod_text(got)), enc_site,
+                          detail={"written": shb(out), "want": mod_text(want), "read": mod_text(got)})
+        # ---- SGR-FRAME per arm
+        if arm_name == "FaceModify":
+            # reset + one more field: the reset parameter must come first; any two fields: their parameters joined by ';'
+            labels = [l for l in single if l != "reset"]
+            checked = 0
+            if "reset" in single:
+                for l in labels:
+                    m = w.mod(reset=True, **{single[l][2]: single[l][1].fields[single[l][2]]})
+                    out = guarded(where, "TTYEncoder::encode(FaceModify(%s))" % mod_text(m), lambda: w.encode("FaceModify", m))
+                    p = sgr_payload(out) if out is not None else None
+                    if p is None:
+                        if out is not None:
+                            framing_ok = False
+                            violation("SGR-FRAME", where, "framing", "%s is written as %s, which is not one ESC [ <parameters> m sequence" % (mod_text(m), shb(out)), enc_site)
+                        continue
+                    checked += 1
+                    if p == bytes([SEP]).join([single["reset"][0], single[l][0]]):
+                        continue
+                    if p == bytes([SEP]).join([single[l][0], single["reset"][0]]):
+                        reset_first = False
+                        got = guarded("decoder::sgr_face", "sgr_face(%s)" % shb(p), lambda: w.read(p))
+                        violation("SGR-FRAME", where, "reset-not-first", "the reset parameter must be the first one (sgr_face's reset discards every field decoded before it): %s is written as %s "
+                                  "and read back as %s" % (mod_text(m), shb(out), mod_text(got)), enc_site)
+                    else:
+                        framing_ok = False
+                        violation("SGR-FRAME", where, "framing", "%s is written as %s: not the parameters of its parts (%s and %s) joined by ';'" % (mod_text(m), shb(out), shb(single["reset"][0]), shb(single[l][0])), enc_site)
+            ctx.instance("SGR-FRAME", {"arm": arm_name, "reset_first": reset_first and "reset" in single, "combinations": checked})
+        else:
+            ctx.instance("SGR-FRAME", {"arm": arm_name, "reset_first": reset_first and reset_payload is not None, "rows": len(order)})
+            if not reset_first:
+                violation("SGR-FRAME", where, "reset-not-first", "every Face must be written with the reset parameter (%s) first" % shb(reset_payload), enc_site)
+        ctx.instance("SGR-FRAME", {"arm": arm_name, "framing": "ESC [ .. m", "ok": framing_ok})
+
+    # ------------------------------------------------------------ pairs of fields through the whole round trip (FaceModify arm)
+    where = "TTYEncoder::encode/FaceModify"
+    labels = [l for l in single if l != "reset"]
+    n_pairs = 0
+    followers = {}
+    for i, la in enumerate(labels):
+        for lb in labels[i + 1:]:
+            fa, fb = single[la][2], single[lb][2]
+            if fa == fb:
+                continue
+            m = w.mod(**{fa: single[la][1].fields[fa], fb: single[lb][1].fields[fb]})
+            out = guarded(where, "TTYEncoder::encode(FaceModify(%s))" % mod_text(m), lambda: w.encode("FaceModify", m))
+            if out is None:
+                continue
+            p = sgr_payload(out)
+            pa, pb = single[la][0], single[lb][0]
+            joined = {bytes([SEP]).join([pa, pb]): (la, lb), bytes([SEP]).join([pb, pa]): (lb, la)}
+            if p is None or p not in joined:
+                violation("SGR-FRAME", where, "framing", "%s is written as %s: not the parameters of its parts (%s and %s) joined by ';'" % (mod_text(m), shb(out), shb(pa), shb(pb)), enc_site)
+                continue
+            n_pairs += 1
+            first, second = joined[p]
+            followers.setdefault(first, []).append(second)
+            got = guarded("decoder::sgr_face", "sgr_face(%s)" % shb(p), lambda: w.read(p))
+            if got is None or got == m:
+                continue
+            if first.endswith("-colour"):
+                violation("SGR-COLOR", "decoder::sgr_color", "swallows-next-parameter",
+                          "the encoder writes a colour and continues with the next field, but the decoder does not stop after the colour's own parameters: %s is written as %s and read back as %s"
+                          % (mod_text(m), shb(out), mod_text(got)), dec_site, detail={"written": shb(out), "read": mod_text(got)})
+            else:
+                violation("SGR-TABLE", where, "%s+%s" % (first, second), "%s is written as %s and read back as %s (each part alone is read back)" % (mod_text(m), shb(out), mod_text(got)), enc_site)
+    col_labels = [l for l in labels if l.endswith("-colour")]
+    ctx.instance("SGR-COLOR", {"case": "a colour followed by another parameter", "pairs_evaluated": n_pairs,
+                               "colour_fields_followed_by": {l: followers.get(l, [])[:3] for l in col_labels}})
+    # everything at once
+    if single:
+        kw = {}
+        for l, (p, rec, fld) in single.items():
+            kw.setdefault(fld, rec.fields[fld])
+        m = w.mod(**kw)
+        out = guarded(where, "TTYEncoder::encode(FaceModify(%s))" % mod_text(m), lambda: w.encode("FaceModify", m))
+        p = sgr_payload(out) if out is not None else None
+        got = guarded("decoder::sgr_face", "sgr_face(%s)" % shb(p), lambda: w.read(p)) if p is not None else None
+        ctx.instance("SGR-TABLE", {"arm": "FaceModify", "row": "all fields at once", "written": shb(out or b""), "read_back": mod_text(got)})
+        if got is not None and got != m:
+            violation("SGR-TABLE", where, "all-fields", "%s is written as %s and read back as %s" % (mod_text(m), shb(out), mod_text(got)), enc_site)
+    if flag_bits and style_bits:
+        bits = 0
+        kw = {"fg": some(C), "bg": some(colour((66, 11, 22)))}
+        for cn, b in flag_bits.items():
+            bits |= b
+            if cn.lower() in w.fm_fields:
+                kw[cn.lower()] = some(True)
+        st = sorted(style_bits)[0]
+        kw["underline"] = some(EnumV("UnderlineStyle", st))
+        f = w.face(fg=kw["fg"], bg=kw["bg"], bits=bits | style_bits[st])
+        out = guarded("TTYEncoder::encode/Face", "TTYEncoder::encode(Face(all attributes))", lambda: w.encode("Face", f))
+        p = sgr_payload(out) if out is not None else None
+        got = guarded("decoder::sgr_face", "sgr_face(%s)" % shb(p), lambda: w.read(p)) if p is not None else None
+        want = w.mod(reset=True, **kw)
+        ctx.instance("SGR-TABLE", {"arm": "Face", "row": "all attributes at once", "written": shb(out or b""), "read_back": mod_text(got)})
+        if got is not None and got != want:
+            if got.fields.get("fg") != want.fields.get("fg") or got.fields.get("bg") != want.fields.get("bg"):
+                violation("SGR-COLOR", "decoder::sgr_color", "swallows-next-parameter", "a Face with colours and attributes is written as %s and read back as %s, expected %s"
+                          % (shb(out), mod_text(got), mod_text(want)), dec_site)
+            else:
+                violation("SGR-TABLE", "TTYEncoder::encode/Face", "all-attributes", "a Face with every attribute is written as %s and read back as %s, expected %s"
+                          % (shb(out), mod_text(got), mod_text(want)), enc_site)
+
+    # ------------------------------------------------------------ the decoder on two parameters: later overrides earlier, reset discards
+    n_seq = 0
+    for la, (pa, ra, fa) in single.items():
+        for lb, (pb, rb, fb) in single.items():
+            p = bytes([SEP]).join([pa, pb])
+            got = guarded("decoder::sgr_face", "sgr_face(%s)" % shb(p), lambda: w.read(p))
+            if got is None:
+                continue
+            n_seq += 1
+            if lb == "reset":
+                want = rb
+            else:
+                want = copyv(ra)
+                want.fields[fb] = rb.fields[fb]
+            if got != want:
+                if lb == "reset":
+                    violation("SGR-TABLE", "TTYEncoder::encode/FaceModify", "reset", "a reset parameter must discard what was read before it: %s is read as %s, expected %s" % (shb(p), mod_text(got), mod_text(want)), dec_site)
+                else:
+                    violation("SGR-TABLE", "decoder::sgr_face", "later-overrides-earlier", "%s is read as %s, expected %s" % (shb(p), mod_text(got), mod_text(want)), dec_site)
+    ctx.instance("SGR-TABLE", {"decoder": "two parameters in sequence (later overrides earlier, reset discards)", "sequences": n_seq}, nontrivial=n_seq > 0)
+
+    # ------------------------------------------------------------ SGR-COLOR
+    prefixes = {}
+    for c in w.colour_fields:
+        l = "%s-colour" % c
+        if l not in single:
+            ctx.instance("SGR-COLOR", {"role": c, "read_back": False})
+            continue
+        payload = single[l][0]
+        parts = chunks_of(payload)
+        prefixes[c] = parts[0]
+        # which parameter carries which component: change one component and see which parameter moves
+        pos = {}
+        for j in range(3):
+            rgb2 = list(RGB)
+            rgb2[j] += 1
+            out = guarded(where, "TTYEncoder::encode(FaceModify{%s})" % c, lambda: w.encode("FaceModify", w.mod(**{c: some(colour(rgb2))})))
+            p2 = chunks_of(sgr_payload(out) or b"") if out is not None else []
+            diff = [k2 for k2 in range(min(len(parts), len(p2))) if parts[k2] != p2[k2]]
+            if len(p2) == len(parts) and len(diff) == 1:
+                pos[j] = diff[0]
+        ctx.instance("SGR-COLOR", {"role": c, "written": shb(payload), "read_back": True, "component_parameters": [pos.get(j) for j in range(3)]})
+        if len(pos) != 3:
+            ctx.anchor("SGR-COLOR", "component-positions", "could not tell which parameter of %s carries which colour component" % shb(payload))
+            ok_all[0] = False
+            continue
+        bad_over = None
+        for j in range(3):
+            for big in (256, 1000):
+                ps = list(parts)
+                ps[pos[j]] = str(big).encode()
+                p = bytes([SEP]).join(ps)
+                got = guarded("decoder::sgr_face", "sgr_face(%s)" % shb(p), lambda: w.read(p))
+                if got is not None and got.fields.get(c) != NONE and bad_over is None:
+                    bad_over = (j, big, p, got)
+        ctx.instance("SGR-COLOR", {"role": c, "case": "component above 255", "rejected": bad_over is None})
+        if bad_over is not None:
+            violation("SGR-COLOR", "decoder::sgr_color", "component-overflow", "component %d = %d of a true-colour triple (%s) is read back as %s instead of being rejected (no colour)"
+                      % (bad_over[0], bad_over[1], shb(bad_over[2]), mod_text(bad_over[3])), dec_site)
+        # every value a component can take, in every position (the three positions are swept together, 85 apart)
+        bad_val = None
+        n_val = 0
+        for v in range(256):
+            rgb = (v, (v + 85) % 256, (v + 170) % 256)
+            m = w.mod(**{c: some(colour(rgb))})
+            out = guarded(where, "TTYEncoder::encode(FaceModify{%s: rgb%s})" % (c, rgb), lambda: w.encode("FaceModify", m))
+            if out is None:
+                break
+            p = sgr_payload(out)
+            got = guarded("decoder::sgr_face", "sgr_face(%s)" % shb(p), lambda: w.read(p)) if p is not None else None
+            if p is not None and got is None:
+                break
+            n_val += 1
+            if got != m:
+                bad_val = (rgb, out, got)
+                break
+        ctx.instance("SGR-COLOR", {"role": c, "case": "every component value 0..=255 in every position", "colours": n_val, "ok": bad_val is None and n_val == 256})
+        if bad_val is not None:
+            violation("SGR-COLOR", "encoder::color_sgr_encode", "component-value", "%s = rgb(%d,%d,%d) is written as %s and read back as %s"
+                      % ((c,) + bad_val[0] + (shb(bad_val[1]), mod_text(bad_val[2]))), enc_site, detail={"colour": list(bad_val[0]), "written": shb(bad_val[1]), "read": mod_text(bad_val[2])})
+        # the ':' form of the same colour (informational: the encoder writes the ';' form)
+        alt = payload.replace(bytes([SEP]), bytes([SUBSEP]))
+        try:
+            got2 = w.read(alt)
+            ctx.instance("SGR-COLOR", {"role": c, "colon_form": shb(alt), "read_back": got2 == single[l][1]}, nontrivial=False)
+        except Unsupported:
+            pass
+    if len(set(prefixes.values())) != len(prefixes):
+        violation("SGR-COLOR", "encoder::color_sgr_encode", "prefix-not-distinct", "colour roles do not have distinct first parameters: %s" % {k2: shb(v) for k2, v in prefixes.items()}, [ENC])
+    want_prefix = ref.get("sgr_colour_params", {}).get("role_prefix", {})
+    ctx.instance("SGR-COLOR", {"first_parameter_per_role": {k2: shb(v) for k2, v in prefixes.items()}, "distinct": len(set(prefixes.values())) == len(prefixes), "xterm": want_prefix}, nontrivial=bool(prefixes))
+
+    # ------------------------------------------------------------ the decoder slices ESC [ .. m
+    n_dec = 0
+    bad = None
+    for l, (payload, rec, fld) in single.items():
+        out = ESC_CSI + payload + b"m"
+        got = guarded("GraphicRenditionMatcher::decode", "GraphicRenditionMatcher::decode(%s)" % shb(out), lambda: w.read_sequence(out))
+        if got is None:
+            break
+        n_dec += 1
+        if got != some(rec) and bad is None:
+            bad = (out, got)
+    ctx.instance("SGR-FRAME", {"decoder_payload": "GraphicRenditionMatcher::decode(ESC [ p m) == Some(sgr_face(p))", "sequences": n_dec, "ok": bad is None and n_dec > 0})
+    if bad is not None:
+        violation("SGR-FRAME", "GraphicRenditionMatcher::decode", "payload", "sgr_face is not given the bytes between ESC[ and the final m: decode(%s) = %s" % (shb(bad[0]), mod_text(bad[1][1]) if isinstance(bad[1], tuple) and len(bad[1]) == 2 else bad[1]), [DEC])
+    # informational: the encoder's bold-off code
+    if "bold-off" in single and single["bold-off"][0] != b"22":
+        ctx.note("bold-off is written and read as SGR %s; ECMA-48/xterm use 22 for normal intensity (21 = doubly underlined). Self-consistent, so not reported under C06." % single["bold-off"][0].decode())
+    return ok_all[0]
 
 
 # ------------------------------------------------------------------------------------------ characters: the UTF-8 language
@@ -473,306 +2153,111 @@ def utf8_lang(ctx):
     return ok_all
 
 
+
+# ------------------------------------------------------------------------------------------ (b) which flag an update moves
+def apply_table(ctx, it, ap, asite, bool_fields, flag_bits):
+    """APPLY-TABLE, observed: FaceModify{f: Some(v)}.apply on the all-clear and the all-set attribute state shows which flag bits the update of f
+    sets / clears; the observed (update -> flag) relation must be name-consistent, injective and complete, Some(true) must set and Some(false) clear"""
+    ctx.rule("APPLY-TABLE", "FaceModify::apply, observed on the all-clear and all-set attribute states: the update of bold/italic/blink/strike moves exactly the flag of "
+                            "the same name (injective, complete); Some(true) sets it, Some(false) clears it", floor=6)
+    names = {b: n for n, b in flag_bits.items()}
+    all_bits = 0
+    for b in flag_bits.values():
+        all_bits |= b
+
+    def effect(field, val, start_bits):
+        m = it.default_of("FaceModify")
+        m.fields[field] = some(val)
+        face = StructV("Face", {"fg": NONE, "bg": NONE, "attrs": StructV("FaceAttrs", {"bits": start_bits})})
+        r = it.call_item(ap[1], "FaceModify", [m, face], ap[0], memo=False)
+        return r.fields["attrs"].fields["bits"]
+
+    def flags(mask):
+        return sorted(names[b] for b in names if mask & b)
+    moved = {}
+    ok = True
+    for f in bool_fields:
+        try:
+            set_by_true = effect(f, True, 0)                     # bits that appear
+            clr_by_true = all_bits & ~effect(f, True, all_bits)    # bits that vanish
+            set_by_false = effect(f, False, 0)
+            clr_by_false = all_bits & ~effect(f, False, all_bits)
+        except Unsupported as ex:
+            ctx.anchor("APPLY-TABLE", "apply-not-evaluable", "FaceModify::apply not evaluable: %s" % ex)
+            return False
+        ctx.instance("APPLY-TABLE", {"update": f, "Some(true)": {"sets": flags(set_by_true), "clears": flags(clr_by_true)},
+                                     "Some(false)": {"sets": flags(set_by_false), "clears": flags(clr_by_false)}})
+        want = f.upper()
+        touched = set(flags(set_by_true | clr_by_true | set_by_false | clr_by_false))
+        moved[f] = touched
+        if not touched:
+            ok = False
+            continue            # reported as coverage below
+        if touched != {want}:
+            ok = False
+            for cname in sorted(touched - {want}):
+                ctx.violation("APPLY-TABLE", "FaceModify::apply", "%s->%s" % (f, cname),
+                              "the update of `%s` is applied to FaceAttrs::%s (expected FaceAttrs::%s): e.g. %s=Some(true) on the default face sets %s"
+                              % (f, cname, want, f, ", ".join(x.lower() for x in flags(set_by_true)) or "nothing"), sites=asite)
+            if want not in touched:
+                continue
+        if flags(set_by_true) != [want] or clr_by_true or set_by_false or flags(clr_by_false) != [want]:
+            if touched == {want}:
+                ok = False
+                ctx.violation("APPLY-TABLE", "FaceModify::apply", "set-clear-arms", "Some(true) must insert and Some(false) must remove the flag on face.attrs: %s: Some(true) sets %s clears %s, "
+                              "Some(false) sets %s clears %s" % (f, flags(set_by_true), flags(clr_by_true), flags(set_by_false), flags(clr_by_false)), sites=asite)
+    untouched = [f for f in bool_fields if not moved.get(f)]
+    cover = not untouched
+    seen = {}
+    dup = []
+    for f, t in moved.items():
+        for c in t:
+            if c in seen:
+                dup.append((seen[c], f, c))
+            seen[c] = f
+    ctx.instance("APPLY-TABLE", {"injective": not dup, "covers": cover, "option_bool_fields": bool_fields})
+    ctx.instance("APPLY-TABLE", {"observed": {f: sorted(t) for f, t in moved.items()}, "ok": ok and cover and not dup})
+    if not cover:
+        ctx.violation("APPLY-TABLE", "FaceModify::apply", "coverage", "the updates of %s change no attribute: apply does not cover the Option<bool> fields %s" % (untouched, bool_fields), sites=asite)
+    if dup and all(c == f.upper() or c == g.upper() for g, f, c in dup):
+        ctx.violation("APPLY-TABLE", "FaceModify::apply", "duplicate-flag", "two updates move the same flag: %s" % dup, sites=asite)
+    return ok and cover and not dup
+
+
 # ------------------------------------------------------------------------------------------ run
 def run(ctx):
     src = ctx.src
     ref = json.load(open(REFS))
     ctx.explanation = (
-        "Decides table clauses of C06 from src.json: (a) every SGR chunk the encoder's FaceModify and Face arms push (reset, 4 flags x on/off, 6 "
-        "underline styles, 3 colour roles in the 38/48/58;2;r;g;b form) is mapped by sgr_face/sgr_color back to the same field and value, the reset "
-        "is emitted first, the framing ESC[ ; m and the ;/: splitting agree, and a true-colour triple is read back unchanged also when another "
-        "parameter follows it; (b) FaceModify::apply's (update, flag) table is injective, name-consistent and complete; apply is evaluated for "
-        "every single-field modification on all 192 valid attribute states x 2 colour states against SGR set/clear semantics; (c) each XAssign "
+        "Decides clauses of C06 by giving the source expressions their value on finite domains (src.json trees; the repository is not run): (a) every face change a "
+        "FaceModify can express (reset, 4 flags x on/off, 6 underline styles, 3 colour roles) and every Face attribute is written by TTYEncoder::encode in true-colour "
+        "mode as one ESC [ .. m sequence whose parameters sgr_face reads back as the same record, alone, in pairs (a colour followed by another parameter, reset first, "
+        "parameters joined by ';') and all at once; on two consecutive parameters the decoder lets the later one override and a reset discard; components above 255 give "
+        "no colour; GraphicRenditionMatcher::decode hands sgr_face the parameter bytes; (b) FaceModify::apply moves exactly the flag named like the updated field and "
+        "is evaluated for every single-field modification on all 192 valid attribute states x 2 colour states against SGR set/clear semantics; (c) each XAssign "
         "impl of FaceAttrs equals `*self = *self X rhs` on all 256x256 raw values; (d) pack/unpack/underline/constants bit layout over all 8-bit "
         "values; (e) Char(c) is written verbatim and the as-built UTF-8 grammar of the command decoder (all characters except ESC, also in the whole command "
         "automaton), of Utf8Decoder (all) and of the event decoder (printable ASCII + multi-byte) contains every RFC 3629 well-formed sequence, row by row "
         "and lead byte by lead byte (UTF8-LANG). NOT decided: arbitrary SGR histories and chunked writes through TTYCellWriter (fold structure is C03's), the decoder's automaton, "
-        "numeric overflow of colour components, conformance of the code numbers to ECMA-48 (the property is about the library's own output).")
+        "reduced colour depths (C20), conformance of the code numbers to ECMA-48 (the property is about the library's own output).")
     ctx.assume("FaceAttrs raw values stay below 2^8 (3 underline bits + 5 flag bits); integer operations in the evaluated expressions do not overflow u16 on that domain")
+    ctx.assume("std items are given their documented meaning by the evaluator's models (Vec/slice/Option/Result/Iterator adaptors, io::Write::write_all, write! formatting of integers and "
+               "chars); checked_/saturating_ integer methods are evaluated as for usize (values stay far below 2^64); sinks do not fail (I/O errors end a command)")
     finite_ok = True
-    it = Interp(src)
-    it.extern_fns["RGBA::new"] = lambda args: ("RGBA",) + tuple(args)
+    it = Ev(src)
 
-    # =========================================================== (a) SGR tables
-    ctx.rule("SGR-TABLE", "each chunk pushed by the encoder's FaceModify/Face arms decodes (sgr_face arms) to the same field and value", floor=31)
-    ctx.rule("SGR-COLOR", "true-colour form <38|48|58>;2;r;g;b: selector, component order and arity agree with sgr_color, also when another parameter follows; components > 255 rejected", floor=7)
-    ctx.rule("SGR-FRAME", "reset is emitted first (decoder's 0 discards earlier fields); ESC[ .. ; .. m framing and ;/: splitting agree", floor=5)
-    dec = DecoderTable(src, it)
-    tc = truecolor_template(src)
-    fm_arm = encoder_arm(src, "FaceModify")
-    face_arm = encoder_arm(src, "Face")
+    # =========================================================== (a) SGR round trip
+    finite_ok = sgr_rules(ctx, it, src, ref) and finite_ok
+
+    ev_full = it
+    it = Dual(src, ev_full)        # attribute algebra below: plain evaluator first
     st = src.struct("FaceModify")
     fm_fields = {f["name"]: f["ty"].replace(" ", "") for f in st[1]["fields"]} if st else {}
     en = src.enum("UnderlineStyle")
     styles = [v["name"] for v in en[1]["variants"]] if en else []
     bool_fields = [n for n, t in fm_fields.items() if t == "Option<bool>"]
-    colour_fields = [n for n, t in fm_fields.items() if t == "Option<RGBA>"]
-    if not dec.ok or tc is None or fm_arm is None or face_arm is None or not st or not en:
-        ctx.anchor("SGR-TABLE", "encoder-arms/sgr_face")
-        finite_ok = False
-    else:
-        gsplit = dec.split_byte(dec.groups_iter)
-        sub_iter = None
-        cmd_init = dec.lets.get(expr_text(dec.cmd_match["e"]))
-        if cmd_init is not None:
-            nx = [n for n in find_all(cmd_init, lambda n: n.get("k") == "mcall" and n["m"] == "next")]
-            sub_iter = expr_text(unref(nx[0]["recv"])) if nx else None
-        ssplit = dec.split_byte(sub_iter) if sub_iter else None
-        sep = gsplit[0] if gsplit else None
-        sub_sep = ssplit[0] if ssplit else None
-        if sep is None or sub_sep is None or ssplit[1] != dec.group_var:
-            ctx.anchor("SGR-FRAME", "decoder-split-bytes")
-            sub_sep = sub_sep or ord(":")
-
-        for arm_name, (f, arm, var) in (("FaceModify", fm_arm), ("Face", face_arm)):
-            where = "TTYEncoder::encode/" + arm_name
-            site = ["%s:%d" % (f, arm["pat"]["line"])]
-            rows, framing, problems = encoder_rows(arm, var)
-            for p in problems:
-                ctx.anchor("SGR-TABLE", where + "/" + p.split(":")[0], p)
-                finite_ok = False
-            seen = set()
-            for row in rows:
-                fld, val = row["field"], row["value"]
-                if fld.startswith("attrs:"):
-                    const = fld.split(":")[1]
-                    fld = const.lower()
-                    if fld not in fm_fields:
-                        # attribute a FaceModify cannot express (e.g. REVERSE): the decoder must not turn it into something else
-                        eff = dec.decode_chunk(row["chunk"], sub_sep)
-                        ctx.instance("SGR-TABLE", {"arm": arm_name, "attr": const, "chunk": row["chunk"].decode(), "decoder": str(eff), "expressible": False}, nontrivial=False)
-                        if eff is not None:
-                            ctx.violation("SGR-TABLE", where, "%s-misread" % const, "chunk %r for %s (not expressible by FaceModify) is decoded as %s" % (row["chunk"], const, eff), sites=site)
-                        continue
-                seen.add((fld, str(val)))
-                if "role" in row:
-                    # colour: role -> prefix of the true-colour template -> decoder arm
-                    pref = tc["prefix"].get(row["role"])
-                    bound_ok = isinstance(val, tuple) and row["arg"] == val[1]
-                    eff = dec.decode_chunk(pref, sub_sep) if pref else ("?", "no prefix for role %s" % row["role"])
-                    good = bound_ok and isinstance(eff, tuple) and eff[0] == fld and isinstance(eff[1], tuple) and eff[1][0] == "colour"
-                    ctx.instance("SGR-TABLE", {"arm": arm_name, "field": fld, "role": row["role"], "prefix": pref.decode() if pref else None, "decoder": str(eff)})
-                    if not good:
-                        ctx.violation("SGR-TABLE", where, "%s-colour" % fld,
-                                      "colour field %s is written with role %s (prefix %r, value %s) but the decoder maps that prefix to %s" % (fld, row["role"], pref, row["arg"], eff), sites=site)
-                    continue
-                if fld == "reset":
-                    want = ("reset", True)
-                    label = "reset"
-                elif fld == "underline":
-                    want = ("underline", val)
-                    label = "underline-%s" % val
-                else:
-                    want = (fld, val)
-                    label = "%s-%s" % (fld, "on" if val is True else "off" if val is False else val)
-                eff = dec.decode_chunk(row["chunk"], sub_sep)
-                ctx.instance("SGR-TABLE", {"arm": arm_name, "field": fld, "value": str(val), "chunk": row["chunk"].decode(), "decoder": str(eff)})
-                if eff != want:
-                    ctx.violation("SGR-TABLE", where, label,
-                                  "%s=%s is written as SGR %r which sgr_face reads as %s" % (fld, val, row["chunk"].decode(), "nothing" if eff is None else "%s=%s" % eff), sites=site)
-            # completeness of the FaceModify arm: every expressible (field, value) has a row
-            if arm_name == "FaceModify":
-                want_rows = [("reset", "True")] + [(c, None) for c in colour_fields] + [("underline", s) for s in styles] + [(b, str(v)) for b in bool_fields for v in (True, False)]
-                for fld, v in want_rows:
-                    have = any(s[0] == fld and (v is None or s[1] == v) for s in seen)
-                    if not have:
-                        ctx.violation("SGR-TABLE", where, "missing-%s-%s" % (fld, v), "FaceModify.%s = %s is never written by the encoder" % (fld, v), sites=site)
-            # reset first
-            r0 = [r for r in rows if r["field"] == "reset"]
-            first = bool(r0) and r0[0]["order"] == 0 and len(r0) == 1
-            ctx.instance("SGR-FRAME", {"arm": arm_name, "reset_first": first, "emission_order": [r["field"] for r in rows][:8]})
-            if not first:
-                ctx.violation("SGR-FRAME", where, "reset-not-first", "the reset chunk must be the first parameter: sgr_face's arm for 0 discards every field decoded before it", sites=site)
-            # framing
-            fr = [(m, [bytes(unref(a)["v"]) if unref(a).get("k") == "lit" and unref(a).get("t") == "bytestr" else None for a in args]) for (_, m, args, _) in framing]
-            lits = [(m, a[0]) for m, a in fr if m in ("write_all", "drain") and a]
-            good = lits == [("write_all", b"\x1b["), ("drain", bytes([sep or 0])), ("write_all", b"m")]
-            ctx.instance("SGR-FRAME", {"arm": arm_name, "framing": [(m, a.decode("latin1") if a else None) for m, a in lits], "ok": good})
-            if not good:
-                ctx.violation("SGR-FRAME", where, "framing", "chunks are not written as ESC[ <chunks joined by %r> m: %s" % (chr(sep or 0), lits), sites=site)
-            # the order in which colours are followed by other parameters (used below)
-            if arm_name == "FaceModify":
-                fm_rows = rows
-        # decoder slices ESC[ ... m
-        gm = src.fn("decode", impl_self="GraphicRenditionMatcher")
-        okd = False
-        if gm:
-            calls = find_all(gm[1]["body"], lambda n: n.get("k") == "call" and n["f"].get("p") == "sgr_face")
-            if len(calls) == 1 and len(calls[0]["args"]) == 1:
-                a = unref(calls[0]["args"][0])
-                okd = a.get("k") == "index" and a["i"].get("k") == "range" and lit_int(a["i"].get("lo")) == 2 and expr_text(a["i"].get("hi")) == "(data.len() - 1)"
-        ctx.instance("SGR-FRAME", {"decoder_payload": "data[2..data.len() - 1]", "ok": okd, "split": [chr(sep or 0), chr(sub_sep)]})
-        if not okd:
-            ctx.violation("SGR-FRAME", "GraphicRenditionMatcher::decode", "payload", "sgr_face is not given the bytes between ESC[ and the final m", sites=[DEC])
-
-        # ---------------- colour sub-protocol
-        sc = src.fn("sgr_color", file=DEC)
-        site = ["%s:%d" % (DEC, sc[1]["line"])] if sc else []
-        # which iterator the thunk hands to sgr_color for the `;` form
-        thunk = None
-        for name, init in dec.lets.items():
-            if init is not None and unref(init).get("k") == "closure":
-                calls = find_all(init, lambda n: n.get("k") == "call" and n["f"].get("p") == "sgr_color")
-                if calls:
-                    thunk = (name, init, calls)
-        shares = None
-        shared_limit = None
-        if thunk:
-            passed = []
-            for c in thunk[2]:
-                base, lim = iter_arg(c["args"][0]) if c.get("args") else (None, None)
-                passed.append(base)
-                if base == dec.groups_iter:
-                    shared_limit = lim
-            shares = dec.groups_iter in passed
-            ctx.instance("SGR-COLOR", {"thunk": thunk[0], "iterators_passed": passed, "semicolon_form_uses": dec.groups_iter, "take_limit": shared_limit})
-            if not shares or sub_iter not in passed:
-                ctx.violation("SGR-COLOR", "decoder::sgr_face", "thunk-iterators", "colour parameters must be read from the `;` iterator (encoder form) or the `:` iterator: %s" % passed, sites=site)
-        else:
-            ctx.anchor("SGR-COLOR", "sgr_color_thunk")
-        sel = tc["selector"]
-        mm = block_value(sc[1]["body"]) if sc else None
-        inner = None
-        if mm is not None and mm.get("k") == "match" and sel:
-            arm = None
-            for a in mm["arms"]:
-                try:
-                    if it.match_pat(a["pat"], int(sel), {}):
-                        arm = a
-                        break
-                except (Unsupported, ValueError):
-                    break
-            if arm is not None:
-                inner = block_value(arm["body"])
-        if inner is None or inner.get("k") != "match" or unref(inner["e"]).get("k") != "array":
-            ctx.anchor("SGR-COLOR", "sgr_color-direct-arm", "sgr_color has no arm for selector %r that matches on an array of parameters" % sel)
-            finite_ok = False
-        else:
-            elems = unref(inner["e"])["elems"]
-            n_read = sum(1 for e in elems if find_all(e, lambda n: n.get("k") == "mcall" and n["m"] == "next"))
-            if shared_limit is not None:
-                # the `;` iterator is handed over as <iter>.take(N): selector + components cannot exceed N
-                n_sel = len(find_all(mm["e"], lambda n: n.get("k") == "mcall" and n["m"] == "next"))
-                n_read = max(0, min(n_read, shared_limit - n_sel))
-            n_written = len(tc["holes"])
-            R, G, B, X = 11, 22, 33, 44
-            want = ("Some", ("RGBA", R, G, B, 255))
-
-            def read_back(params):
-                vals = [some(p) if p is not None else NONE for p in params] + [NONE] * (len(elems) - len(params))
-                try:
-                    return it.match_value(inner, vals[:len(elems)], Frame({}, None, DEC), as_fn_body=True)
-                except Unsupported as ex:
-                    return "not evaluable: %s" % ex
-            comps = [(R, G, B)[h] if h is not None else None for h in tc["holes"]]
-            last = read_back(comps[:n_read] if n_read < n_written else comps)
-            ctx.instance("SGR-COLOR", {"case": "colour is the last parameter", "written": comps, "read": str(last), "components": ref["sgr_colour_params"]["direct_components"]})
-            if last != want:
-                ctx.violation("SGR-COLOR", "decoder::sgr_color", "component-order", "%s;%s written for RGB(%d,%d,%d) is read back as %s" % (sel.decode(), ";".join(map(str, comps)), R, G, B, last), sites=site)
-            # a component that does not fit a byte is not a colour (must not be truncated into a different colour)
-            if last == want and n_read >= n_written:
-                bad_over = None
-                for j in range(n_written):
-                    for big in (256, 1000):
-                        got = read_back([big if i == j else c for i, c in enumerate(comps)])
-                        if got != NONE and bad_over is None:
-                            bad_over = (j, big, got)
-                ctx.instance("SGR-COLOR", {"case": "component above 255", "positions": n_written, "rejected": bad_over is None})
-                if bad_over is not None:
-                    ctx.violation("SGR-COLOR", "decoder::sgr_color", "component-overflow",
-                                  "component %d = %d of a true-colour triple is read back as %s instead of being rejected (no colour)" % (bad_over[0], bad_over[1], bad_over[2]), sites=site)
-            # followed by another parameter
-            followers = []
-            if 'fm_rows' in locals():
-                for r in fm_rows:
-                    if "role" in r:
-                        later = [q["field"] for q in fm_rows if q["order"] > r["order"]]
-                        followers.append((r["field"], later))
-            ctx.instance("SGR-COLOR", {"parameters_written": n_written, "parameters_drawn_by_decoder": n_read, "shared_iterator": shares,
-                                       "colour_fields_followed_by": {f: l[:3] for f, l in followers}})
-            if n_read > n_written and shares and any(l for _, l in followers):
-                nxt = read_back(comps + [X])
-                ctx.instance("SGR-COLOR", {"case": "another numeric parameter follows", "written": comps + [X], "read": str(nxt)})
-                fol = [f for f, l in followers if l][0]
-                ctx.violation("SGR-COLOR", "decoder::sgr_color", "swallows-next-parameter",
-                              "the encoder writes a colour as %s;%s;r;g;b (%d parameters after the selector) and continues with the next field, but sgr_color draws %d "
-                              "parameters from the shared `;` iterator: with a following parameter %d the triple (%d,%d,%d) is read back as %s and the following parameter "
-                              "is consumed. E.g. FaceModify{%s: Some(RGB(1,2,3)), bold: Some(true)} is written as ESC[38;2;1;2;3;1m and read back as fg=RGB(2,3,1) with no bold"
-                              % (tc["prefix"].get("Foreground", b"38").decode(), sel.decode(), n_written, n_read, X, R, G, B, nxt, fol), sites=site,
-                              detail={"written": comps + [X], "read": str(nxt)})
-            elif n_read > n_written and shares:
-                ctx.note("sgr_color draws %d parameters but colours are always written last" % n_read)
-            for role, code in ref["sgr_colour_params"]["role_prefix"].items():
-                got = tc["prefix"].get(role)
-                ctx.instance("SGR-COLOR", {"role": role, "prefix": got.decode() if got else None})
-                # conformance of the prefix itself is C20/TRUECOLOR's; here only that each role has a distinct prefix
-            pv = [v for v in tc["prefix"].values()]
-            if len(set(pv)) != len(pv) or None in pv:
-                ctx.violation("SGR-COLOR", "encoder::color_sgr_encode", "prefix-not-distinct", "colour roles do not have distinct prefixes: %s" % tc["prefix"], sites=[ENC])
-        # informational: the encoder's bold-off code
-        for r in fm_rows if 'fm_rows' in locals() else []:
-            if r["field"] == "bold" and r["value"] is False and r.get("chunk") != b"22":
-                ctx.note("bold-off is written and read as SGR %s; ECMA-48/xterm use 22 for normal intensity (21 = doubly underlined). Self-consistent, so not reported under C06." % r["chunk"].decode())
-
-    # =========================================================== (b) apply table
-    ctx.rule("APPLY-TABLE", "FaceModify::apply: (update, flag) rows are injective, name-consistent (bold->BOLD ..), cover every Option<bool> field; Some(true)=>insert, Some(false)=>remove", floor=6)
     ap = src.fn("apply", impl_self="FaceModify")
-    if ap is None:
-        ctx.anchor("APPLY-TABLE", "FaceModify::apply")
-        finite_ok = False
-    else:
-        asite = ["%s:%d" % (ap[0], ap[1]["line"])]
-        loops = [n for n in find_all(ap[1]["body"], lambda n: n.get("k") == "for" and unref(n["iter"]).get("k") == "array")]
-        rows = []
-        loop = loops[0] if len(loops) == 1 else None
-        if loop is None or loop["pat"]["k"] != "tuple" or len(loop["pat"]["elems"]) != 2:
-            ctx.anchor("APPLY-TABLE", "update-flag-array")
-            finite_ok = False
-        else:
-            for row in unref(loop["iter"])["elems"]:
-                if row.get("k") != "tuple" or len(row["elems"]) != 2:
-                    ctx.anchor("APPLY-TABLE", "row-shape")
-                    continue
-                f = is_field_of(row["elems"][0], "self")
-                c = unref(row["elems"][1])
-                cname = c["p"].split("::")[-1] if c.get("k") == "path" and c["p"].startswith("FaceAttrs::") else None
-                rows.append((f, cname, row["line"]))
-                ctx.instance("APPLY-TABLE", {"update": f, "flag": cname})
-                if f is None or cname is None:
-                    ctx.anchor("APPLY-TABLE", "row-shape")
-                elif f.upper() != cname:
-                    ctx.violation("APPLY-TABLE", "FaceModify::apply", "%s->%s" % (f, cname),
-                                  "the update of `%s` is applied to FaceAttrs::%s (expected FaceAttrs::%s): e.g. strike=Some(true) on the default face sets %s and leaves %s clear"
-                                  % (f, cname, f.upper(), cname.lower(), f), sites=["%s:%d" % (ap[0], row["line"])])
-            fs = [r[0] for r in rows]
-            cs = [r[1] for r in rows]
-            inj = len(set(fs)) == len(fs) and len(set(cs)) == len(cs)
-            cover = sorted(x for x in fs if x) == sorted(bool_fields)
-            ctx.instance("APPLY-TABLE", {"injective": inj, "covers": cover, "option_bool_fields": bool_fields})
-            if len(set(fs)) != len(fs):
-                ctx.violation("APPLY-TABLE", "FaceModify::apply", "duplicate-update", "a FaceModify field occurs twice in the table: %s" % fs, sites=asite)
-            if len(set(cs)) != len(cs) and all(f and c and f.upper() == c for f, c, _ in rows):
-                ctx.violation("APPLY-TABLE", "FaceModify::apply", "duplicate-flag", "a flag occurs twice in the table: %s" % cs, sites=asite)
-            if not cover:
-                ctx.violation("APPLY-TABLE", "FaceModify::apply", "coverage", "table fields %s do not cover the Option<bool> fields %s" % (fs, bool_fields), sites=asite)
-            # match shape
-            ms = [n for n in find_all(loop["body"], lambda n: n.get("k") == "match")]
-            shape = {}
-            if len(ms) == 1 and expr_text(ms[0]["e"]) == pat_names(loop["pat"])[0]:
-                flagv = pat_names(loop["pat"])[1]
-                for arm in ms[0]["arms"]:
-                    v = pat_value(arm["pat"])
-                    b = block_value(arm["body"])
-                    if b is not None and b.get("k") == "assign" and unref(b["r"]).get("k") == "mcall":
-                        mc = unref(b["r"])
-                        shape[str(v)] = (mc["m"], expr_text(b["l"]), expr_text(mc["recv"]), [expr_text(a) for a in mc["args"]] == [flagv])
-                    else:
-                        shape[str(v)] = None
-            ok_shape = shape.get("True") is not None and shape.get("False") is not None and shape["True"][0] == "insert" and shape["False"][0] == "remove" \
-                and all(s[1] == s[2] and s[3] for s in (shape["True"], shape["False"]))
-            ctx.instance("APPLY-TABLE", {"match": {k: v for k, v in shape.items()}, "ok": ok_shape})
-            if not ok_shape:
-                ctx.violation("APPLY-TABLE", "FaceModify::apply", "set-clear-arms", "Some(true) must insert and Some(false) must remove the row's flag on face.attrs: %s" % shape, sites=asite)
+    asite = ["%s:%d" % (ap[0], ap[1]["line"])] if ap else [FACE]
 
     # =========================================================== (d) bit layout (before semantics: the semantics read results through these)
     ctx.rule("BIT-LAYOUT", "FaceAttrs: 3 low bits = underline style 0..5 in enum order, flags << 3 single distinct bits, ALL_FLAGS = their union; pack/unpack/underline/from over all 8-bit values", floor=17)
@@ -907,6 +2392,18 @@ def run(ctx):
     if len(pairs) < 3:
         finite_ok = False
 
+    # =========================================================== (b) apply table (observed)
+    if ap is None:
+        ctx.rule("APPLY-TABLE", "FaceModify::apply moves exactly the flag named like the updated field", floor=6)
+        ctx.anchor("APPLY-TABLE", "FaceModify::apply")
+        finite_ok = False
+    elif len(flag_bits) == len(flag_names):
+        finite_ok = apply_table(ctx, it, ap, asite, bool_fields, flag_bits) and finite_ok
+    else:
+        ctx.rule("APPLY-TABLE", "FaceModify::apply moves exactly the flag named like the updated field", floor=6)
+        ctx.note("APPLY-TABLE not evaluated: the flag constants of FaceAttrs are not single distinct bits (BIT-LAYOUT)")
+        finite_ok = False
+
     # =========================================================== apply semantics
     ctx.rule("APPLY-SEMANTICS", "FaceModify::apply evaluated for every single-field modification on 192 attribute states x 2 colour states: sets/clears exactly that attribute, reset gives the default face", floor=33)
     if ap is not None and st is not None and layout_ok and len(flag_bits) == len(flag_names):
@@ -988,17 +2485,28 @@ def run(ctx):
         finite_ok = False
     ctx.extra["evaluator_steps"] = it.steps
 
+
     # =========================================================== characters
-    ctx.rule("CHAR-VERBATIM", "TerminalCommand::Char(c) is written with a plain {} and nothing else", floor=1)
-    ca = encoder_arm(src, "Char")
-    if ca is None:
+    ctx.rule("CHAR-VERBATIM", "TerminalCommand::Char(c) is written as the UTF-8 encoding of c and nothing else", floor=1)
+    w = SgrWorld(ev_full, src)
+    if not w.ok or "Char" not in w.cmd_variants:
         ctx.anchor("CHAR-VERBATIM", "Char-arm")
     else:
-        items = emissions(ca[1]["body"])
-        good = len(items) == 1 and items[0][0] == "write" and items[0][1] == "{}" and [expr_text(a) for a in items[0][2]] == [ca[2]]
-        ctx.instance("CHAR-VERBATIM", {"items": [i[0] for i in items], "ok": good})
-        if not good:
-            ctx.violation("CHAR-VERBATIM", "TTYEncoder::encode/Char", "template", "Char(c) is not written as exactly the character", sites=[ENC])
+        probes = [0x61, 0x7e, 0x20, 0x09, 0x7b, 0x7d, 0x25, 0x5c, 0x22, 0x27, 0xe9, 0x20ac, 0xfffd, 0x1f600, 0x10ffff]
+        bad = None
+        err = None
+        try:
+            for c in probes:
+                out = w.encode("Char", CharV(c))
+                if out != chr(c).encode("utf-8") and bad is None:
+                    bad = (c, out)
+        except Unsupported as ex:
+            err = str(ex)
+        ctx.instance("CHAR-VERBATIM", {"characters": len(probes), "ok": bad is None and err is None})
+        if err:
+            ctx.anchor("CHAR-VERBATIM", "Char-arm", "TTYEncoder::encode(Char(c)) is not evaluable: " + err)
+        elif bad:
+            ctx.violation("CHAR-VERBATIM", "TTYEncoder::encode/Char", "template", "Char(U+%04X) is written as %s, not as exactly the character (%s)" % (bad[0], shb(bad[1]), shb(chr(bad[0]).encode("utf-8"))), sites=[ENC])
     # ... and the decoders' UTF-8 grammar admits the encoding of every character
     utf8_lang(ctx)
 
